@@ -385,173 +385,7 @@ theorem keyedFoldS_keys (g : Agg) (l : List V) (p : V) (hp : p ∈ keyedFoldS g 
   obtain ⟨q, hq, hqk⟩ := (mem_keysOf k l).mp hk
   exact ⟨q, hq, by simp [foldFor, hqk]⟩
 
-/-! ### Part E — the simulation between `parRun` and `seqRun` -/
-
-/-- **the invariant**: the union of the replicas is the sequential value (as a multiset) and, for
-    keyed streams, equal keys are co-located -/
-def Rel (h : V → Nat) (kd : Bool) (dv : D) (sv : List V) : Prop :=
-  dv.flatten.Perm sv ∧ (kd = true → Coloc h dv)
-
-inductive All2 {α β : Type} (R : α → β → Prop) : List α → List β → Prop
-  | nil : All2 R [] []
-  | cons {a b as bs} : R a b → All2 R as bs → All2 R (a :: as) (b :: bs)
-
-theorem All2.append {α β : Type} {R : α → β → Prop} {a a' : List α} {b b' : List β}
-    (h : All2 R a b) (h' : All2 R a' b') : All2 R (a ++ a') (b ++ b') := by
-  induction h with
-  | nil => simpa using h'
-  | cons hr _ ih => exact All2.cons hr ih
-
-theorem All2.get? {α β : Type} {R : α → β → Prop} {a : List α} {b : List β} (h : All2 R a b) (i : Nat) :
-    (a[i]? = none ∧ b[i]? = none) ∨ ∃ x y, a[i]? = some x ∧ b[i]? = some y ∧ R x y := by
-  induction h generalizing i with
-  | nil => simp
-  | cons hr _ ih =>
-    cases i with
-    | zero => exact Or.inr ⟨_, _, by simp, by simp, hr⟩
-    | succ i => simpa using ih i
-
-theorem All2.any_eq {α β : Type} {R : α → β → Prop} {a : List α} {b : List β} (h : All2 R a b)
-    (f : α → Bool) (g : β → Bool) (hfg : ∀ x y, R x y → f x = g y) : a.any f = b.any g := by
-  induction h with
-  | nil => rfl
-  | cons hr _ ih => simp [hfg _ _ hr, ih]
-
-theorem All2.map_fun {α β γ δ : Type} {R : α → β → Prop} {S : γ → δ → Prop} {fs : List (α → γ)}
-    {gs : List (β → δ)} {x : α} {y : β}
-    (h : All2 (fun f g => ∀ x y, R x y → S (f x) (g y)) fs gs) (hxy : R x y) :
-    All2 S (fs.map (· x)) (gs.map (· y)) := by
-  induction h with
-  | nil => exact All2.nil
-  | cons hr _ ih => exact All2.cons (hr _ _ hxy) ih
-
-def EntryRel (h : V → Nat) (e1 : Entry D) (e2 : Entry (List V)) : Prop :=
-  e1.id = e2.id ∧ e1.keyed = e2.keyed ∧ All2 (Rel h e1.keyed) e1.ports e2.ports
-
-def SinkRel (p1 : Nat × D) (p2 : Nat × List V) : Prop := p1.1 = p2.1 ∧ p1.2.flatten.Perm p2.2
-
-def StRel (h : V → Nat) (s1 : St D) (s2 : St (List V)) : Prop :=
-  All2 (EntryRel h) s1.env s2.env ∧ All2 SinkRel s1.sinks s2.sinks
-
-theorem StRel.defined {h s1 s2} (hs : StRel h s1 s2) (id : Nat) : s1.defined id = s2.defined id := by
-  unfold St.defined
-  rw [hs.1.any_eq _ _ (fun x y hr => by rw [hr.1]), hs.2.any_eq _ _ (fun x y hr => by rw [hr.1])]
-
-theorem lookup_rel {h} {e1 : List (Entry D)} {e2 : List (Entry (List V))} (he : All2 (EntryRel h) e1 e2)
-    (id : Nat) : (lookup id e1 = none ∧ lookup id e2 = none) ∨
-      ∃ x y, lookup id e1 = some x ∧ lookup id e2 = some y ∧ EntryRel h x y := by
-  induction he with
-  | nil => simp [lookup]
-  | @cons a b as bs hr _ ih =>
-    simp only [lookup]
-    rw [← hr.1]
-    by_cases hid : a.id = id
-    · simp only [hid, if_true]; exact Or.inr ⟨a, b, rfl, rfl, hr⟩
-    · simpa [hid] using ih
-
-/-- related states answer a reference alike -/
-def GetRel (h : V → Nat) (kd : Option Bool) : Option D → Option (List V) → Prop
-  | none, none => True
-  | some x, some y => ∃ k, kd.all (· == k) = true ∧ Rel h k x y
-  | _, _ => False
-
-theorem StRel.get {h s1 s2} (hs : StRel h s1 s2) (r : Ref) (kd : Option Bool) :
-    GetRel h kd (s1.get r kd) (s2.get r kd) := by
-  unfold St.get
-  rcases lookup_rel hs.1 r.id with ⟨h1, h2⟩ | ⟨x, y, h1, h2, hr⟩
-  · simp [h1, h2, GetRel]
-  · simp only [h1, h2]
-    rw [← hr.2.1]
-    by_cases hk : kd.all (· == x.keyed) = true
-    · simp only [hk, if_true]
-      rcases hr.2.2.get? r.port with ⟨g1, g2⟩ | ⟨a, b, g1, g2, hab⟩
-      · simp [g1, g2, GetRel]
-      · simp only [g1, g2, GetRel]; exact ⟨x.keyed, hk, hab⟩
-    · simp [hk, GetRel]
-
-/-- related node semantics: same shape, same references, functions preserve the invariant -/
-inductive SemRel (h : V → Nat) : Sem D → Sem (List V) → Prop
-  | src {v1 v2} : Rel h false v1 v2 → SemRel h (.src v1) (.src v2)
-  | un {a kin kout f1 f2} : (∀ x y, Rel h kin x y → Rel h kout (f1 x) (f2 y)) →
-      SemRel h (.un a kin kout f1) (.un a kin kout f2)
-  | bin {a b kin kout f1 f2} :
-      (∀ x y x' y', Rel h kin x y → Rel h kin x' y' → Rel h kout (f1 x x') (f2 y y')) →
-      SemRel h (.bin a b kin kout f1) (.bin a b kin kout f2)
-  | multi {a fs1 fs2} : All2 (fun f1 f2 => ∀ x y, Rel h false x y → Rel h false (f1 x) (f2 y)) fs1 fs2 →
-      SemRel h (.multi a fs1) (.multi a fs2)
-  | sink {a f1 f2} : (∀ k x y, Rel h k x y → (f1 x).flatten.Perm (f2 y)) →
-      SemRel h (.sink a f1) (.sink a f2)
-
-def OutRel (h : V → Nat) : Option (Bool × List D × Option D) → Option (Bool × List (List V) × Option (List V)) → Prop
-  | none, none => True
-  | some (k1, p1, none), some (k2, p2, none) => k1 = k2 ∧ All2 (Rel h k1) p1 p2
-  | some (_, _, some v1), some (_, _, some v2) => v1.flatten.Perm v2
-  | _, _ => False
-
-theorem getRel_some_kind {h b o1 o2} (hg : GetRel h (some b) o1 o2) :
-    (o1 = none ∧ o2 = none) ∨ ∃ x y, o1 = some x ∧ o2 = some y ∧ Rel h b x y := by
-  cases o1 <;> cases o2 <;> simp [GetRel] at hg ⊢
-  exact hg
-
-theorem runSem_rel {h s1 s2 m1 m2} (hs : StRel h s1 s2) (hm : SemRel h m1 m2) :
-    OutRel h (runSem s1 m1) (runSem s2 m2) := by
-  cases hm with
-  | src hv => exact ⟨rfl, All2.cons hv All2.nil⟩
-  | @un a kin kout f1 f2 hf =>
-    simp only [runSem]
-    rcases getRel_some_kind (hs.get a (some kin)) with ⟨h1, h2⟩ | ⟨x, y, h1, h2, hr⟩
-    · simp [h1, h2, OutRel]
-    · simp only [h1, h2, Option.bind_some, OutRel]; exact ⟨trivial, All2.cons (hf x y hr) All2.nil⟩
-  | @bin a b kin kout f1 f2 hf =>
-    simp only [runSem]
-    rcases getRel_some_kind (hs.get a (some kin)) with ⟨h1, h2⟩ | ⟨x, y, h1, h2, hr⟩
-    · simp [h1, h2, OutRel]
-    · rcases getRel_some_kind (hs.get b (some kin)) with ⟨g1, g2⟩ | ⟨x', y', g1, g2, hr'⟩
-      · simp [h1, h2, g1, g2, OutRel]
-      · simp only [h1, h2, g1, g2, Option.bind_some, OutRel]
-        exact ⟨trivial, All2.cons (hf x y x' y' hr hr') All2.nil⟩
-  | @multi a fs1 fs2 hf =>
-    simp only [runSem]
-    rcases getRel_some_kind (hs.get a (some false)) with ⟨h1, h2⟩ | ⟨x, y, h1, h2, hr⟩
-    · simp [h1, h2, OutRel]
-    · simp only [h1, h2, Option.bind_some, OutRel]; exact ⟨trivial, hf.map_fun hr⟩
-  | @sink a f1 f2 hf =>
-    simp only [runSem]
-    have hg := hs.get a none
-    cases h1 : s1.get a none <;> cases h2 : s2.get a none <;> simp [h1, h2, GetRel] at hg
-    · simp [OutRel]
-    · simp only [Option.bind_some, OutRel]
-      rcases hg with hr | hr <;> exact hf _ _ _ hr
-
-theorem stepWith_rel {h s1 s2} {sem1 : Node → Sem D} {sem2 : Node → Sem (List V)} (n : Node)
-    (hs : StRel h s1 s2) (hm : SemRel h (sem1 n) (sem2 n)) :
-    StRel h (stepWith sem1 s1 n) (stepWith sem2 s2 n) := by
-  unfold stepWith
-  rw [hs.defined n.id]
-  split
-  · exact hs
-  · have ho := runSem_rel hs hm
-    generalize runSem s1 (sem1 n) = o1 at ho
-    generalize runSem s2 (sem2 n) = o2 at ho
-    match o1, o2, ho with
-    | none, none, _ => exact hs
-    | some (k1, p1, none), some (k2, p2, none), ho =>
-      obtain ⟨hk, hp⟩ := ho
-      subst hk
-      exact ⟨hs.1.append (All2.cons ⟨rfl, rfl, hp⟩ All2.nil), hs.2⟩
-    | some (_, _, some v1), some (_, _, some v2), ho =>
-      exact ⟨hs.1, hs.2.append (All2.cons ⟨rfl, ho⟩ All2.nil)⟩
-
-theorem foldl_stepWith_rel {h} {sem1 : Node → Sem D} {sem2 : Node → Sem (List V)} (job : Job)
-    (hm : ∀ n ∈ job, SemRel h (sem1 n) (sem2 n)) {s1 s2} (hs : StRel h s1 s2) :
-    StRel h (job.foldl (stepWith sem1) s1) (job.foldl (stepWith sem2) s2) := by
-  induction job generalizing s1 s2 with
-  | nil => exact hs
-  | cons n job ih =>
-    simp only [foldl_cons]
-    exact ih (fun m hm' => hm m (by simp [hm'])) (stepWith_rel n hs (hm n (by simp)))
-
-/-! ### Part F — every stage of the fragment preserves the invariant -/
+/-! ### Part D' — further stage lemmas -/
 
 theorem count_pos (c : Cfg) (r : Rep) : 0 < c.count r := by
   cases r <;> simp only [Cfg.count] <;> omega
@@ -561,25 +395,6 @@ theorem flatten_map_hom (f : List V → List V) (h0 : f [] = []) (ha : ∀ a b, 
   induction d with
   | nil => simp [h0]
   | cons l d ih => simp [ha, ih]
-
-theorem rel_plain {h : V → Nat} {dv : D} {sv : List V} (hp : dv.flatten.Perm sv) : Rel h false dv sv :=
-  ⟨hp, fun hh => by cases hh⟩
-
-/-- **stateless stages distribute over replicas** -/
-theorem rel_hom {h : V → Nat} (f : List V → List V) (h0 : f [] = [])
-    (ha : ∀ a b, f (a ++ b) = f a ++ f b) (hperm : ∀ l l' : List V, l.Perm l' → (f l).Perm (f l'))
-    {k : Bool} {x : D} {y : List V} (hr : Rel h k x y) : Rel h false (x.map f) (f y) :=
-  rel_plain (by rw [flatten_map_hom f h0 ha]; exact hperm _ _ hr.1)
-
-theorem rel_hom_keyed {h : V → Nat} (f : List V → List V) (h0 : f [] = [])
-    (ha : ∀ a b, f (a ++ b) = f a ++ f b) (hperm : ∀ l l' : List V, l.Perm l' → (f l).Perm (f l'))
-    (hk : ∀ l p, p ∈ f l → ∃ q ∈ l, q.fst = p.fst)
-    {x : D} {y : List V} (hr : Rel h true x y) : Rel h true (x.map f) (f y) :=
-  ⟨(rel_hom f h0 ha hperm hr).1, fun _ => coloc_map f x (hr.2 rfl) hk⟩
-
-theorem rel_exchange {h : V → Nat} (n : Nat) (ch : Nat → V → Nat) (c : Nat → Nat) (hn : 0 < n)
-    {k : Bool} {x : D} {y : List V} (hr : Rel h k x y) : Rel h false (exchange n ch c x) y :=
-  rel_plain ((exchange_perm n ch c x hn).trans hr.1)
 
 theorem foldS_perm (g : Agg) {l l' : List V} (h : l.Perm l') : foldS g l = foldS g l' := by
   unfold foldS
@@ -657,70 +472,6 @@ theorem kmapS_keys (f : MapFn) (k : Int) (l : List V) (p : V) (hp : p ∈ kmapS 
 theorem kfilterS_keys (f : PredFn) (k : Int) (l : List V) (p : V) (hp : p ∈ kfilterS f k l) :
     ∃ q ∈ l, q.fst = p.fst :=
   ⟨p, (mem_filter.mp hp).1, rfl⟩
-
-theorem rel_gather_fun {h : V → Nat} (c : Nat → Nat) (f : List V → List V)
-    (hf : ∀ l l' : List V, l.Perm l' → (f l).Perm (f l')) {k : Bool} {x : D} {y : List V}
-    (hr : Rel h k x y) : Rel h false ((gather c x).map f) (f y) :=
-  rel_plain (by simpa [gather] using hf _ _ ((permBy_perm c _).trans hr.1))
-
-/-- every stage of the fragment maps related inputs to related outputs -/
-theorem semRel_frag (cfg : Cfg) (o : Orc) (n : Node) (hf : n.kind.orderInsensitive = true) :
-    SemRel o.hash (parSem cfg o n) (seqSem n) := by
-  obtain ⟨id, kind⟩ := n
-  cases kind <;> simp only [Kind.orderInsensitive, Bool.false_eq_true] at hf <;>
-    simp only [parSem, seqSem]
-  case iter l => exact .src (rel_plain (by simp))
-  case par lo hi =>
-    refine .src (rel_plain ?_)
-    have := flatten_routeInto (cfg.count .u) (fun i _ => o.route id i) 0 (rangeV lo hi)
-      (replicate (cfg.count .u) []) (count_pos cfg .u) (by simp)
-    simpa using this
-  case map a f k =>
-    exact .un fun x y hr => rel_hom (List.map (f.eval k)) rfl (by simp) (fun _ _ hp => hp.map _) hr
-  case filter a f k =>
-    exact .un fun x y hr => rel_hom (List.filter (f.eval k)) rfl (by simp) (fun _ _ hp => hp.filter _) hr
-  case fmap a f k =>
-    exact .un fun x y hr => rel_hom (List.flatMap (f.eval k)) rfl (by simp)
-      (fun _ _ hp => hp.flatMap_right _) hr
-  case shuffle a => exact .un fun x y hr => rel_exchange _ _ _ (count_pos cfg .u) hr
-  case repl a r => exact .un fun x y hr => rel_exchange _ _ _ (count_pos cfg r) hr
-  case repart a r f k => exact .un fun x y hr => rel_exchange _ _ _ (count_pos cfg r) hr
-  case groupBy a f k =>
-    refine .un fun x y hr => ⟨?_, fun _ => coloc_exchange o.hash _ _ _⟩
-    refine (exchange_perm _ _ _ _ (count_pos cfg .u)).trans ?_
-    exact (rel_hom (keyByS f k) rfl (by simp [keyByS]) (fun _ _ hp => hp.map _) hr).1
-  case kmap a f k =>
-    exact .un fun x y hr => rel_hom_keyed (kmapS f k) rfl (by simp [kmapS])
-      (fun _ _ hp => hp.map _) (kmapS_keys f k) hr
-  case kfilter a f k =>
-    exact .un fun x y hr => rel_hom_keyed (kfilterS f k) rfl (by simp [kfilterS])
-      (fun _ _ hp => hp.filter _) (kfilterS_keys f k) hr
-  case kfold a g =>
-    refine .un fun x y hr => ⟨?_, fun _ => coloc_map _ x (hr.2 rfl) (keyedFoldS_keys g)⟩
-    rw [flatten_map_keyedFoldS g x (hr.2 rfl)]
-    exact keyedFoldS_perm g hr.1
-  case unkey a => exact .un fun x y hr => rel_plain hr.1
-  case dropKey a =>
-    exact .un fun x y hr => rel_hom (List.map V.snd) rfl (by simp) (fun _ _ hp => hp.map _) hr
-  case fold a g =>
-    exact .un fun x y hr => rel_gather_fun _ (foldS g) (fun _ _ hp => by rw [foldS_perm g hp]) hr
-  case reduce a g =>
-    exact .un fun x y hr => rel_gather_fun _ (reduceS g) (fun _ _ hp => by rw [reduceS_perm g hp]) hr
-  case foldA a g =>
-    refine .un fun x y hr => rel_plain ?_
-    simp only [gather, map_cons, map_nil, flatten_cons, flatten_nil, append_nil]
-    rw [combine_partials, foldS_perm g hr.1]
-  case merge a b =>
-    refine .bin fun x y x' y' hr hr' => rel_plain ?_
-    exact (flatten_map_perm (permBy_perm _) _).trans ((zipAppend_perm x x').trans (hr.1.append hr'.1))
-  case route a ps =>
-    refine .multi ?_
-    induction (List.range ps.length) with
-    | nil => exact All2.nil
-    | cons j js ih =>
-      refine All2.cons (fun x y hr => ?_) ih
-      exact rel_hom (routeS ps j) rfl (by simp [routeS]) (fun _ _ hp => hp.filter _) hr
-  case sink a => exact .sink fun k x y hr => (gather_perm _ x).trans hr.1
 
 theorem projs_valsOf_flatten (k : V) (parts : D) :
     (parts.map fun p => projs (valsOf k p)).flatten = projs (valsOf k parts.flatten) := by
@@ -843,30 +594,1431 @@ theorem join_copart (h : V → Nat) (v : JVar) (k1 k2 : V → V) (n off : Nat) (
         obtain ⟨j, h2⟩ := hx.tail.mem_flatten a ha
         rw [e] at h2; omega
 
-theorem stRel_init (h : V → Nat) : StRel h ({} : St D) ({} : St (List V)) := ⟨All2.nil, All2.nil⟩
 
-/-- the simulation: on jobs of the fragment the parallel and the sequential run stay related -/
-theorem run_rel (cfg : Cfg) (o : Orc) (job : Job) (hj : orderInsensitive job = true) :
-    StRel o.hash (parRun cfg o job) (seqRun job) := by
-  unfold parRun seqRun
-  apply foldl_stepWith_rel job _ (stRel_init o.hash)
-  intro n hn
-  exact semRel_frag cfg o n (by simpa [orderInsensitive] using (List.all_eq_true.mp hj) n hn)
+/-! ### Part D'' — generic keyed aggregation (`keyedGen`), reductions, keyed two-phase -/
 
-theorem all2_sinks {s1 : List (Nat × D)} {s2 : List (Nat × List V)} (h : All2 SinkRel s1 s2) :
-    All2 (fun p q => p.1 = q.1 ∧ p.2.Perm q.2) (s1.map fun p => (p.1, p.2.flatten)) s2 := by
+/-- keyed aggregation with output function `ψ key values` -/
+def keyedGen (ψ : V → List V → List V) (l : List V) : List V :=
+  (keysOf l).flatMap fun k => ψ k (valsOf k l)
+
+def ψFold (g : Agg) (k : V) (vs : List V) : List V := [V.pair k (.int (F g (projs vs)))]
+def ψComb (g : Agg) (k : V) (vs : List V) : List V := [V.pair k (.int ((projs vs).foldl g.glob 0))]
+def ψRed (g : Agg) (k : V) (vs : List V) : List V := (reduceInts g (projs vs)).map fun x => V.pair k (.int x)
+
+theorem map_eq_flatMap_single {α : Type} (f : α → V) (l : List α) : l.map f = l.flatMap fun k => [f k] := by
+  induction l with
+  | nil => rfl
+  | cons a l ih => simp [ih]
+theorem keyedFoldS_gen (g : Agg) (l : List V) : keyedFoldS g l = keyedGen (ψFold g) l := by
+  simp only [keyedFoldS, keyedGen, ψFold, F]; exact map_eq_flatMap_single _ _
+theorem keyedCombineS_gen (g : Agg) (l : List V) : keyedCombineS g l = keyedGen (ψComb g) l := by
+  simp only [keyedCombineS, keyedGen, ψComb]; exact map_eq_flatMap_single _ _
+theorem keyedReduceS_gen (g : Agg) (l : List V) : keyedReduceS g l = keyedGen (ψRed g) l := rfl
+
+/-- `ψ` is a keyed aggregation function: insensitive to the order of the values, outputs carry the key -/
+structure KeyedFn (ψ : V → List V → List V) : Prop where
+  perm : ∀ k vs vs', vs.Perm vs' → ψ k vs = ψ k vs'
+  key : ∀ k vs p, p ∈ ψ k vs → p.fst = k
+
+theorem keyedGen_append {ψ : V → List V → List V} (l1 l2 : List V)
+    (hd : ∀ p ∈ l1, ∀ q ∈ l2, p.fst ≠ q.fst) :
+    keyedGen ψ (l1 ++ l2) = keyedGen ψ l1 ++ keyedGen ψ l2 := by
+  simp only [keyedGen]
+  have hk : keysOf (l1 ++ l2) = keysOf l1 ++ keysOf l2 := by
+    simp only [keysOf, map_append]
+    apply dedup_append
+    intro a ha hb
+    obtain ⟨p, hp, rfl⟩ := mem_map.mp ha
+    obtain ⟨q, hq, hqp⟩ := mem_map.mp hb
+    exact hd p hp q hq hqp.symm
+  rw [hk, flatMap_append]
+  congr 1
+  · apply flatMap_congr'
+    intro k hk1
+    obtain ⟨p, hp, rfl⟩ := (mem_keysOf k l1).mp hk1
+    rw [valsOf_append, valsOf_nil_of_not_mem _ l2 (fun q hq h => hd p hp q hq h.symm), append_nil]
+  · apply flatMap_congr'
+    intro k hk2
+    obtain ⟨q, hq, rfl⟩ := (mem_keysOf k l2).mp hk2
+    rw [valsOf_append, valsOf_nil_of_not_mem _ l1 (fun p hp h => hd p hp q hq h), nil_append]
+
+theorem keyedGen_perm {ψ : V → List V → List V} (hψ : KeyedFn ψ) {l l' : List V} (h : l.Perm l') :
+    (keyedGen ψ l).Perm (keyedGen ψ l') := by
+  simp only [keyedGen]
+  have hf : (fun k => ψ k (valsOf k l)) = fun k => ψ k (valsOf k l') := by
+    funext k; exact hψ.perm k _ _ (valsOf_perm k h)
+  rw [hf]
+  exact (keysOf_perm h).flatMap_right _
+
+theorem keyedGen_keys {ψ : V → List V → List V} (hψ : KeyedFn ψ) (l : List V) (p : V)
+    (hp : p ∈ keyedGen ψ l) : ∃ q ∈ l, q.fst = p.fst := by
+  simp only [keyedGen, mem_flatMap] at hp
+  obtain ⟨k, hk, hpk⟩ := hp
+  obtain ⟨q, hq, hqk⟩ := (mem_keysOf k l).mp hk
+  exact ⟨q, hq, by rw [hqk, hψ.key k _ p hpk]⟩
+
+theorem flatten_map_keyedGen {ψ : V → List V → List V} {h n off} (d : D) (hi : InvAt h n off d) :
+    (d.map (keyedGen ψ)).flatten = keyedGen ψ d.flatten := by
+  induction d generalizing off with
+  | nil => simp [keyedGen, keysOf, dedup]
+  | cons l d ih =>
+    simp only [map_cons, flatten_cons]
+    rw [ih hi.tail, keyedGen_append]
+    intro p hp q hq heq
+    have h1 := hi.head p hp
+    obtain ⟨j, h2⟩ := mem_flatten_invAt d hi.tail q hq
+    rw [heq] at h1; omega
+
+theorem valsOf_flatten (k : V) (parts : D) : valsOf k parts.flatten = (parts.map (valsOf k)).flatten := by
+  induction parts with
+  | nil => rfl
+  | cons p ps ih => simp [valsOf_append, ih]
+
+theorem nodup_keysOf (l : List V) : (keysOf l).Nodup := nodup_dedup _
+
+theorem valsOf_ne_nil_iff (k : V) (l : List V) : valsOf k l ≠ [] ↔ k ∈ keysOf l := by
+  rw [mem_keysOf]
+  constructor
+  · intro h
+    cases hv : l.filter (fun p => decide (p.fst = k)) with
+    | nil => simp [valsOf, hv] at h
+    | cons p _ =>
+      have : p ∈ l.filter (fun p => decide (p.fst = k)) := by rw [hv]; simp
+      exact ⟨p, (mem_filter.mp this).1, by simpa using (mem_filter.mp this).2⟩
+  · rintro ⟨p, hp, hpk⟩ h
+    have : p.snd ∈ valsOf k l := by
+      simp only [valsOf, mem_map, mem_filter, decide_eq_true_eq]; exact ⟨p, ⟨hp, hpk⟩, rfl⟩
+    rw [h] at this; simp at this
+
+/-- what the outputs of a keyed aggregation contribute to key `k` -/
+theorem valsOf_keyedGen {ψ : V → List V → List V} (hψ : KeyedFn ψ) (k : V) (l : List V) :
+    valsOf k (keyedGen ψ l) = if valsOf k l = [] then [] else (ψ k (valsOf k l)).map V.snd := by
+  have gen : ∀ ks : List V, ks.Nodup →
+      valsOf k (ks.flatMap fun k' => ψ k' (valsOf k' l)) =
+        if k ∈ ks then (ψ k (valsOf k l)).map V.snd else [] := by
+    intro ks
+    induction ks with
+    | nil => intro _; simp [valsOf]
+    | cons a ks ih =>
+      intro hnd
+      rw [nodup_cons] at hnd
+      rw [flatMap_cons, valsOf_append, ih hnd.2]
+      by_cases hak : a = k
+      · subst hak
+        have h1 : valsOf a (ψ a (valsOf a l)) = (ψ a (valsOf a l)).map V.snd := by
+          simp only [valsOf]
+          rw [filter_eq_self.mpr]
+          intro p hp; simpa using hψ.key a _ p hp
+        simp [h1, hnd.1]
+      · have h1 : valsOf k (ψ a (valsOf a l)) = [] := by
+          apply valsOf_nil_of_not_mem
+          intro p hp h; exact hak ((hψ.key a _ p hp).symm.trans h)
+        have : (k ∈ a :: ks) = (k ∈ ks) := by simp [Ne.symm hak]
+        simp [h1, Ne.symm hak]
+  rw [keyedGen, gen _ (nodup_keysOf l)]
+  by_cases hv : valsOf k l = []
+  · have : k ∉ keysOf l := fun hk => (valsOf_ne_nil_iff k l).mpr hk hv
+    simp [hv, this]
+  · have : k ∈ keysOf l := (valsOf_ne_nil_iff k l).mp hv
+    simp [hv, this]
+
+/-- **keyed two-phase aggregation**: phase 1 (`ψ₁`) per part, union, phase 2 (`ψ₂`) = phase 1 on the
+    union — provided the per-key law `hlaw` and that phase 1 emits something for every present key -/
+theorem keyedGen_twoPhase {ψ₁ ψ₂ : V → List V → List V} (h1 : KeyedFn ψ₁)
+    (hne : ∀ k vs, vs ≠ [] → ψ₁ k vs ≠ [])
+    (hlaw : ∀ k (parts : D), ψ₂ k (parts.map fun p => valsOf k (keyedGen ψ₁ p)).flatten =
+      ψ₁ k (valsOf k parts.flatten))
+    (parts : D) :
+    (keyedGen ψ₂ (parts.map (keyedGen ψ₁)).flatten).Perm (keyedGen ψ₁ parts.flatten) := by
+  simp only [keyedGen]
+  have hf : (fun k => ψ₂ k (valsOf k (parts.map (keyedGen ψ₁)).flatten)) =
+      fun k => ψ₁ k (valsOf k parts.flatten) := by
+    funext k
+    have := hlaw k parts
+    rw [valsOf_flatten, map_map]
+    simpa [keyedGen, Function.comp_def] using this
+  rw [hf]
+  apply Perm.flatMap_right
+  apply (perm_ext_iff_of_nodup (nodup_keysOf _) (nodup_keysOf _)).mpr
+  intro k
+  rw [← valsOf_ne_nil_iff, ← valsOf_ne_nil_iff]
+  have e1 : valsOf k (flatten (map (keyedGen ψ₁) parts)) =
+      (parts.map fun p => valsOf k (keyedGen ψ₁ p)).flatten := by
+    rw [valsOf_flatten, map_map]; rfl
+  rw [e1, valsOf_flatten]
+  simp only [ne_eq, flatten_eq_nil_iff, mem_map, forall_exists_index, and_imp,
+    forall_apply_eq_imp_iff₂]
+  apply not_congr
+  constructor
+  · intro hall p hp
+    apply Classical.byContradiction
+    intro hv
+    have := hall p hp
+    rw [valsOf_keyedGen h1, if_neg hv] at this
+    exact hne k _ hv (by simpa using this)
+  · intro hall p hp
+    rw [valsOf_keyedGen h1, if_pos (hall p hp)]
+
+/-! ### algebra of the global step, reductions -/
+
+theorem glob_assoc (g : Agg) (a b c : Int) : g.glob (g.glob a b) c = g.glob a (g.glob b c) := by
+  cases g <;> simp only [Agg.glob, emod_M] <;> omega
+
+theorem foldl_glob_assoc (g : Agg) (a p : Int) (ps : List Int) :
+    ps.foldl g.glob (g.glob a p) = g.glob a (ps.foldl g.glob p) := by
+  induction ps generalizing p with
+  | nil => rfl
+  | cons q qs ih => simp only [foldl_cons]; rw [glob_assoc, ih]
+
+theorem glob_zero_left (g : Agg) (y : Int) (h : g.norm y) : g.glob 0 y = y := by
+  rw [glob_comm]; exact h
+
+/-- continuing a global fold from a normal accumulator = combining with the fold from 0 -/
+theorem foldl_glob_norm (g : Agg) (a : Int) (ys : List Int) (ha : g.norm a)
+    (hy : ∀ y ∈ ys, g.norm y) : ys.foldl g.glob a = g.glob a (ys.foldl g.glob 0) := by
+  cases ys with
+  | nil => exact ha.symm
+  | cons y ys =>
+    simp only [foldl_cons]
+    rw [foldl_glob_assoc, glob_zero_left g y (hy y (by simp))]
+
+/-- the accumulator of a reduction -/
+def Ropt (g : Agg) (xs : List Int) : Option Int := xs.foldl (optStep g) none
+
+def optMerge (g : Agg) : Option Int → Option Int → Option Int
+  | none, b => b
+  | a, none => a
+  | some a, some b => some (g.glob a b)
+
+theorem foldl_optStep_some (g : Agg) (a : Int) (xs : List Int) :
+    xs.foldl (optStep g) (some a) = some (xs.foldl g.glob a) := by
+  induction xs generalizing a with
+  | nil => rfl
+  | cons x xs ih => simp only [foldl_cons, optStep]; exact ih _
+
+theorem Ropt_cons (g : Agg) (x : Int) (xs : List Int) : Ropt g (x :: xs) = some (xs.foldl g.glob x) := by
+  simp only [Ropt, foldl_cons, optStep]; exact foldl_optStep_some g x xs
+
+theorem Ropt_append (g : Agg) (xs ys : List Int) : Ropt g (xs ++ ys) = optMerge g (Ropt g xs) (Ropt g ys) := by
+  cases xs with
+  | nil => cases h : Ropt g ys <;> simp [Ropt, optMerge] at h ⊢ <;> simp [h, optMerge]
+  | cons x xs =>
+    cases ys with
+    | nil => rw [append_nil, Ropt_cons]; rfl
+    | cons y ys =>
+      rw [show (x :: xs) ++ y :: ys = x :: (xs ++ y :: ys) from rfl, Ropt_cons, Ropt_cons, Ropt_cons]
+      simp only [optMerge, foldl_append, foldl_cons]
+      rw [foldl_glob_assoc]
+
+theorem Ropt_toList (g : Agg) (o : Option Int) : Ropt g o.toList = o := by
+  cases o <;> simp [Ropt, optStep]
+
+/-- **two-phase reduction**: reduce every part, then reduce the partial results -/
+theorem Ropt_twoPhase (g : Agg) (parts : List (List Int)) :
+    Ropt g (parts.map fun p => (Ropt g p).toList).flatten = Ropt g parts.flatten := by
+  induction parts with
+  | nil => rfl
+  | cons p ps ih =>
+    simp only [map_cons, flatten_cons]
+    rw [Ropt_append, Ropt_append, ih, Ropt_toList]
+
+theorem reduceInts_eq (g : Agg) (xs : List Int) : reduceInts g xs = (Ropt g xs).toList := rfl
+
+theorem projs_reduceS (g : Agg) (l : List V) : projs (reduceS g l) = (Ropt g (projs l)).toList := by
+  simp [reduceS, reduceInts_eq, projs, V.proj, Function.comp_def]
+
+theorem reduceS_congr (g : Agg) {l l' : List V} (h : Ropt g (projs l) = Ropt g (projs l')) :
+    reduceS g l = reduceS g l' := by
+  unfold reduceS; rw [reduceInts_eq, reduceInts_eq, h]
+
+/-- two-phase `reduce_assoc`: any partition, any arrival order of the partial results -/
+theorem reduce_partials (g : Agg) (c : Nat → Nat) (d : D) :
+    reduceS g (permBy c (d.map (reduceS g)).flatten) = reduceS g d.flatten := by
+  rw [reduceS_perm g (permBy_perm c _)]
+  have h1 : projs (d.map (reduceS g)).flatten = ((d.map projs).map fun p => (Ropt g p).toList).flatten := by
+    rw [← flatten_map_projs, map_map, map_map]
+    congr 2
+    funext l; simp [projs_reduceS]
+  apply reduceS_congr
+  rw [h1, Ropt_twoPhase, flatten_map_projs]
+
+/-! ### instances of the keyed aggregation -/
+
+theorem keyedFn_fold (g : Agg) : KeyedFn (ψFold g) :=
+  ⟨fun k vs vs' h => by simp only [ψFold, projs]; rw [F_perm g (h.map _)],
+   fun k vs p hp => by simp only [ψFold, mem_singleton] at hp; subst hp; rfl⟩
+
+theorem keyedFn_comb (g : Agg) : KeyedFn (ψComb g) :=
+  ⟨fun k vs vs' h => by simp only [ψComb, projs]; rw [foldl_glob_perm g (h.map _) 0],
+   fun k vs p hp => by simp only [ψComb, mem_singleton] at hp; subst hp; rfl⟩
+
+theorem keyedFn_red (g : Agg) : KeyedFn (ψRed g) :=
+  ⟨fun k vs vs' h => by
+     have := reduceS_perm g h
+     simp only [reduceS] at this
+     simp only [ψRed]
+     have h2 : reduceInts g (projs vs) = reduceInts g (projs vs') := by
+       have := congrArg projs this
+       simpa [projs, V.proj, Function.comp_def] using this
+     rw [h2],
+   fun k vs p hp => by
+     simp only [ψRed, mem_map] at hp
+     obtain ⟨x, _, rfl⟩ := hp; rfl⟩
+
+theorem ψFold_ne (g : Agg) (k : V) (vs : List V) (_ : vs ≠ []) : ψFold g k vs ≠ [] := by simp [ψFold]
+
+theorem ψRed_ne (g : Agg) (k : V) (vs : List V) (h : vs ≠ []) : ψRed g k vs ≠ [] := by
+  cases vs with
+  | nil => exact absurd rfl h
+  | cons v vs => simp [ψRed, reduceInts_eq, projs, Ropt_cons]
+
+/-- per-key law of `group_by_fold`: combining the partial accumulators of the parts that contain the
+    key gives the fold of all its values -/
+theorem fold_law (g : Agg) (k : V) (parts : D) :
+    ψComb g k (parts.map fun p => valsOf k (keyedGen (ψFold g) p)).flatten =
+      ψFold g k (valsOf k parts.flatten) := by
+  simp only [ψComb, ψFold]
+  congr 3
+  have key : ∀ p : List V, (projs (valsOf k (keyedGen (ψFold g) p))).foldl g.glob 0 = F g (projs (valsOf k p)) ∧
+      ∀ y ∈ projs (valsOf k (keyedGen (ψFold g) p)), g.norm y := by
+    intro p
+    rw [valsOf_keyedGen (keyedFn_fold g)]
+    by_cases hv : valsOf k p = []
+    · simp [hv, projs, F]
+    · simp only [hv, if_false, ψFold, map_cons, map_nil, snd_pair, projs, V.proj, foldl_cons, foldl_nil,
+        mem_singleton, forall_eq]
+      exact ⟨glob_zero_left g _ (F_norm g _), F_norm g _⟩
+  induction parts with
+  | nil => rfl
+  | cons p ps ih =>
+    simp only [map_cons, flatten_cons, valsOf_append]
+    have hp1 : projs (valsOf k (keyedGen (ψFold g) p) ++ (ps.map fun p => valsOf k (keyedGen (ψFold g) p)).flatten)
+        = projs (valsOf k (keyedGen (ψFold g) p)) ++ projs (ps.map fun p => valsOf k (keyedGen (ψFold g) p)).flatten := by
+      simp [projs]
+    have hp2 : projs (valsOf k p ++ valsOf k ps.flatten) = projs (valsOf k p) ++ projs (valsOf k ps.flatten) := by
+      simp [projs]
+    rw [hp1, hp2, foldl_append, (key p).1, F_append, ← ih]
+    apply foldl_glob_norm g _ _ (F_norm g _)
+    intro y hy
+    rw [← flatten_map_projs] at hy
+    obtain ⟨l, hl, hyl⟩ := mem_flatten.mp hy
+    obtain ⟨l', hl', rfl⟩ := mem_map.mp hl
+    obtain ⟨q, _, rfl⟩ := mem_map.mp hl'
+    exact (key q).2 y hyl
+
+theorem red_law (g : Agg) (k : V) (parts : D) :
+    ψRed g k (parts.map fun p => valsOf k (keyedGen (ψRed g) p)).flatten =
+      ψRed g k (valsOf k parts.flatten) := by
+  simp only [ψRed]
+  congr 1
+  rw [reduceInts_eq, reduceInts_eq]
+  congr 1
+  have key : ∀ p : List V, projs (valsOf k (keyedGen (ψRed g) p)) = (Ropt g (projs (valsOf k p))).toList := by
+    intro p
+    rw [valsOf_keyedGen (keyedFn_red g)]
+    by_cases hv : valsOf k p = []
+    · simp [hv, projs, Ropt]
+    · simp [hv, ψRed, reduceInts_eq, projs, V.proj, Function.comp_def]
+  have h1 : projs (parts.map fun p => valsOf k (keyedGen (ψRed g) p)).flatten =
+      ((parts.map fun p => projs (valsOf k p)).map fun q => (Ropt g q).toList).flatten := by
+    rw [← flatten_map_projs, map_map, map_map]
+    congr 2
+    funext p; exact key p
+  rw [h1, Ropt_twoPhase, projs_valsOf_flatten]
+
+/-! ### count windows with the counting aggregate -/
+
+theorem foldl_cnt (w : List Int) (a : Int) : w.foldl Agg.cnt.loc a = a + w.length := by
+  induction w generalizing a with
+  | nil => simp
+  | cons x w ih => simp only [foldl_cons, Agg.loc, ih, length_cons]; omega
+
+/-- the results of counting windows depend only on the NUMBER of elements -/
+theorem groups_cnt (n s fuel : Nat) (xs ys : List Int) (h : xs.length = ys.length) :
+    (groups n s fuel xs).map (fun w => w.foldl Agg.cnt.loc 0) =
+      (groups n s fuel ys).map (fun w => w.foldl Agg.cnt.loc 0) := by
+  induction fuel generalizing xs ys with
+  | zero => rfl
+  | succ fuel ih =>
+    simp only [groups, h]
+    split
+    · rfl
+    · simp only [map_cons, foldl_cnt, length_take, h]
+      have ih' := ih (xs.drop (max s 1)) (ys.drop (max s 1)) (by simp [h])
+      simp only [foldl_cnt] at ih'
+      rw [ih']
+
+def ψWin (n s : Nat) (k : V) (vs : List V) : List V :=
+  let xs := projs vs
+  (groups n s (xs.length + 1) xs).map fun w => V.pair k (.int (w.foldl Agg.cnt.loc 0))
+
+theorem keyedWinS_gen (n s : Nat) (l : List V) : keyedWinS n s .cnt l = keyedGen (ψWin n s) l := rfl
+
+theorem keyedFn_win (n s : Nat) : KeyedFn (ψWin n s) :=
+  ⟨fun k vs vs' h => by
+     have hl : (projs vs).length = (projs vs').length := by simp [projs, h.length_eq]
+     have := groups_cnt n s ((projs vs).length + 1) (projs vs) (projs vs') hl
+     simp only [ψWin]
+     rw [← hl]
+     have e : ∀ zs : List (List Int), zs.map (fun w => V.pair k (.int (w.foldl Agg.cnt.loc 0))) =
+         (zs.map fun w => w.foldl Agg.cnt.loc 0).map fun c => V.pair k (.int c) := by
+       intro zs; simp
+     rw [e, e, this],
+   fun k vs p hp => by
+     simp only [ψWin, mem_map] at hp
+     obtain ⟨w, _, rfl⟩ := hp; rfl⟩
+
+/-! ### broadcast + idempotent reduction -/
+
+theorem optMerge_none_right (g : Agg) (o : Option Int) : optMerge g o none = o := by cases o <;> rfl
+
+theorem optMerge_self (g : Agg) (hg : ∀ a, g.glob a a = a) (o : Option Int) : optMerge g o o = o := by
+  cases o <;> simp [optMerge, hg]
+
+theorem Ropt_replicate (g : Agg) (hg : ∀ a, g.glob a a = a) (o : Option Int) (n : Nat) :
+    Ropt g (replicate (n + 1) o.toList).flatten = o := by
+  induction n with
+  | zero => simp [Ropt_toList]
+  | succ n ih =>
+    rw [replicate_succ, flatten_cons, Ropt_append, ih, Ropt_toList, optMerge_self g hg]
+
+theorem glob_idem (g : Agg) (hg : (g == .min || g == .max) = true) (a : Int) : g.glob a a = a := by
+  cases g <;> simp at hg <;> simp [Agg.glob]
+
+/-- every replica reduces its copy of the whole stream, the partial results are reduced again:
+    for an idempotent operation this is the reduction of the stream, whatever the replica count -/
+theorem reduce_broadcast (g : Agg) (hg : (g == .min || g == .max) = true) (n : Nat) (hn : 0 < n)
+    (c c' : Nat → Nat) (d : D) :
+    reduceS g (permBy c' ((broadcast n c d).map (reduceS g)).flatten) = reduceS g d.flatten := by
+  rw [reduceS_perm g (permBy_perm c' _)]
+  apply reduceS_congr
+  obtain ⟨m, rfl⟩ : ∃ m, n = m + 1 := ⟨n - 1, by omega⟩
+  have h1 : projs ((broadcast (m + 1) c d).map (reduceS g)).flatten =
+      (replicate (m + 1) (Ropt g (projs d.flatten)).toList).flatten := by
+    rw [← flatten_map_projs, broadcast, map_replicate, map_replicate, projs_reduceS]
+    congr 3
+    have := reduceS_perm g (permBy_perm c d.flatten)
+    have h2 := congrArg projs this
+    rw [projs_reduceS, projs_reduceS] at h2
+    cases ha : Ropt g (projs (permBy c d.flatten)) <;> cases hb : Ropt g (projs d.flatten) <;>
+      simp [ha, hb] at h2 ⊢
+    exact h2
+  rw [h1, Ropt_replicate g (glob_idem g hg)]
+
+/-! ### keyed two-phase aggregation as a stage -/
+
+theorem flatten_map_map (K f : List V → List V) (d : D) : (d.map fun l => f (K l)) = (d.map K).map f := by
+  rw [map_map]; rfl
+
+/-! ### joins as stages -/
+
+theorem flatMap_perm_pointwise {f g : V → List V} {l : List V} (h : ∀ a ∈ l, (f a).Perm (g a)) :
+    (l.flatMap f).Perm (l.flatMap g) := by
+  induction l with
+  | nil => simp
+  | cons a l ih =>
+    simp only [flatMap_cons]
+    exact (h a (by simp)).append (ih fun b hb => h b (by simp [hb]))
+
+theorem leftOne_perm (v : JVar) (k1 k2 : V → V) {rs rs' : List V} (h : rs.Perm rs') (l : V) :
+    (leftOne v k1 k2 rs l).Perm (leftOne v k1 k2 rs' l) := by
+  have hm := h.filter (fun r => decide (k2 r = k1 l))
+  have he := perm_isEmpty hm
+  cases v <;> simp only [leftOne]
+  · exact hm.map _
+  · rw [he]; split
+    · exact Perm.refl _
+    · exact hm.map _
+  · rw [he]; split
+    · exact Perm.refl _
+    · exact hm.map _
+
+theorem rightPart_perm (v : JVar) (k1 k2 : V → V) {ls ls' rs rs' : List V} (hl : ls.Perm ls')
+    (hr : rs.Perm rs') : (rightPart v k1 k2 ls rs).Perm (rightPart v k1 k2 ls' rs') := by
+  cases v <;> simp only [rightPart] <;> try exact Perm.refl _
+  have hp : (fun r => (ls.filter fun l => decide (k1 l = k2 r)).isEmpty) =
+      fun r => (ls'.filter fun l => decide (k1 l = k2 r)).isEmpty := by
+    funext r; exact perm_isEmpty (hl.filter _)
+  rw [hp]
+  exact (hr.filter _).map _
+
+/-- the relational join respects multiset equality of both inputs -/
+theorem joinS_perm (v : JVar) (k1 k2 : V → V) {ls ls' rs rs' : List V} (hl : ls.Perm ls')
+    (hr : rs.Perm rs') : (joinS v k1 k2 ls rs).Perm (joinS v k1 k2 ls' rs') := by
+  rw [joinS_eq, joinS_eq]
+  refine Perm.append ?_ (rightPart_perm v k1 k2 hl hr)
+  exact (hl.flatMap_right _).trans (flatMap_perm_pointwise fun a _ => leftOne_perm v k1 k2 hr a)
+
+theorem joinS_keys (v : JVar) (k1 k2 : V → V) (ls rs : List V) (p : V) (hp : p ∈ joinS v k1 k2 ls rs) :
+    (∃ l ∈ ls, p.fst = k1 l) ∨ (∃ r ∈ rs, p.fst = k2 r) := by
+  rw [joinS_eq, mem_append] at hp
+  rcases hp with hp | hp
+  · left
+    obtain ⟨l, hl, hpl⟩ := mem_flatMap.mp hp
+    refine ⟨l, hl, ?_⟩
+    cases v <;> simp only [leftOne] at hpl
+    · obtain ⟨r, _, rfl⟩ := mem_map.mp hpl; rfl
+    · split at hpl
+      · simp at hpl; subst hpl; rfl
+      · obtain ⟨r, _, rfl⟩ := mem_map.mp hpl; rfl
+    · split at hpl
+      · simp at hpl; subst hpl; rfl
+      · obtain ⟨r, _, rfl⟩ := mem_map.mp hpl; rfl
+  · right
+    cases v <;> simp only [rightPart] at hp
+    · simp at hp
+    · simp at hp
+    · obtain ⟨r, hr, rfl⟩ := mem_map.mp hp
+      exact ⟨r, (mem_filter.mp hr).1, rfl⟩
+
+theorem CoPart.head {h key n off l d} (hi : CoPart h key n off (l :: d)) : ∀ p ∈ l, h (key p) % n = off := by
+  intro p hp; simpa using hi 0 l (by simp) p hp
+
+theorem CoPart.cons {h key n off l d} (h0 : ∀ p ∈ l, h (key p) % n = off) (ht : CoPart h key n (off + 1) d) :
+    CoPart h key n off (l :: d) := by
+  intro j l' hj p hp
+  cases j with
+  | zero => simp at hj; subst hj; simpa using h0 p hp
+  | succ j => have := ht j l' (by simpa using hj) p hp; omega
+
+theorem copart_replicate (h : V → Nat) (key : V → V) (n off k : Nat) : CoPart h key n off (replicate k []) := by
+  intro j l hj p hp
+  rw [getElem?_replicate] at hj
+  split at hj
+  · cases hj; simp at hp
+  · simp at hj
+
+theorem copart_push {h key n off} (d : D) (r : Nat) (x : V) (hi : CoPart h key n off d)
+    (hx : h (key x) % n = off + r) : CoPart h key n off (push d r x) := by
+  induction d generalizing r off with
+  | nil => simpa [push] using hi
+  | cons l d ih =>
+    cases r with
+    | zero =>
+      simp only [push]
+      refine CoPart.cons ?_ hi.tail
+      intro p hp
+      rcases mem_append.mp hp with hp | hp
+      · exact hi.head p hp
+      · simp at hp; subst hp; simpa using hx
+    | succ r =>
+      simp only [push]
+      exact CoPart.cons hi.head (ih r hi.tail (by omega))
+
+theorem copart_routeInto {h key n} (i : Nat) (xs : List V) (d : D) (hi : CoPart h key n 0 d) :
+    CoPart h key n 0 (routeInto n (fun _ v => h (key v)) i xs d) := by
+  induction xs generalizing i d with
+  | nil => simpa [routeInto] using hi
+  | cons x xs ih =>
+    simp only [routeInto]
+    exact ih (i + 1) _ (copart_push d _ x hi (by simp))
+
+/-- hash routing by ANY key function co-partitions by that key -/
+theorem copart_exchange (h : V → Nat) (key : V → V) (n : Nat) (c : Nat → Nat) (d : D) :
+    CoPart h key n 0 (exchange n (fun _ v => h (key v)) c d) := by
+  unfold exchange
+  intro j l hj p hp
+  rw [getElem?_map] at hj
+  cases hd : (routeInto n (fun _ v => h (key v)) 0 d.flatten (replicate n []))[j]? with
+  | none => simp [hd] at hj
+  | some l0 =>
+    simp [hd] at hj; subst hj
+    exact copart_routeInto 0 _ _ (copart_replicate h key n 0 n) j l0 hd p ((permBy_perm c l0).mem_iff.mp hp)
+
+theorem invAt_zipWith_join {h : V → Nat} (v : JVar) (k1 k2 : V → V) {n off : Nat} (x y : D)
+    (hx : CoPart h k1 n off x) (hy : CoPart h k2 n off y) :
+    InvAt h n off (zipWith (joinS v k1 k2) x y) := by
+  induction x generalizing y off with
+  | nil => intro j l hj; simp at hj
+  | cons lx x ih =>
+    cases y with
+    | nil => intro j l hj; simp at hj
+    | cons ly y =>
+      simp only [zipWith_cons_cons]
+      refine InvAt.cons ?_ (ih y hx.tail hy.tail)
+      intro p hp
+      rcases joinS_keys v k1 k2 lx ly p hp with ⟨l, hl, e⟩ | ⟨r, hr, e⟩
+      · rw [e]; exact hx.head l hl
+      · rw [e]; exact hy.head r hr
+
+theorem flatten_map_join_right (v : JVar) (hv : v ≠ .outer) (k1 k2 : V → V) (x : D) (rs : List V) :
+    (x.map fun l => joinS v k1 k2 l rs).flatten = joinS v k1 k2 x.flatten rs := by
+  apply flatten_map_hom (fun l => joinS v k1 k2 l rs)
+  · cases v <;> simp [joinS] at hv ⊢
+  · intro a b
+    cases v <;> simp [joinS] at hv ⊢
+
+/-! ### Part E — a generic simulation between two evaluators sharing the `Sem` skeleton -/
+
+inductive All2 {α β : Type} (R : α → β → Prop) : List α → List β → Prop
+  | nil : All2 R [] []
+  | cons {a b as bs} : R a b → All2 R as bs → All2 R (a :: as) (b :: bs)
+
+theorem All2.append {α β : Type} {R : α → β → Prop} {a a' : List α} {b b' : List β}
+    (h : All2 R a b) (h' : All2 R a' b') : All2 R (a ++ a') (b ++ b') := by
+  induction h with
+  | nil => simpa using h'
+  | cons hr _ ih => exact All2.cons hr ih
+
+theorem All2.get? {α β : Type} {R : α → β → Prop} {a : List α} {b : List β} (h : All2 R a b) (i : Nat) :
+    (a[i]? = none ∧ b[i]? = none) ∨ ∃ x y, a[i]? = some x ∧ b[i]? = some y ∧ R x y := by
+  induction h generalizing i with
+  | nil => simp
+  | cons hr _ ih =>
+    cases i with
+    | zero => exact Or.inr ⟨_, _, by simp, by simp, hr⟩
+    | succ i => simpa using ih i
+
+theorem All2.any_eq {α β : Type} {R : α → β → Prop} {a : List α} {b : List β} (h : All2 R a b)
+    (f : α → Bool) (g : β → Bool) (hfg : ∀ x y, R x y → f x = g y) : a.any f = b.any g := by
+  induction h with
+  | nil => rfl
+  | cons hr _ ih => simp [hfg _ _ hr, ih]
+
+theorem All2.all_eq {α β : Type} {R : α → β → Prop} {a : List α} {b : List β} (h : All2 R a b)
+    (f : α → Bool) (g : β → Bool) (hfg : ∀ x y, R x y → f x = g y) : a.all f = b.all g := by
+  induction h with
+  | nil => rfl
+  | cons hr _ ih => simp [hfg _ _ hr, ih]
+
+theorem All2.map_fun {α β γ δ : Type} {R : α → β → Prop} {S : γ → δ → Prop} {fs : List (α → γ)}
+    {gs : List (β → δ)} {x : α} {y : β}
+    (h : All2 (fun f g => ∀ x y, R x y → S (f x) (g y)) fs gs) (hxy : R x y) :
+    All2 S (fs.map (· x)) (gs.map (· y)) := by
   induction h with
   | nil => exact All2.nil
-  | cons hr _ ih => exact All2.cons ⟨hr.1, hr.2⟩ ih
+  | cons hr _ ih => exact All2.cons (hr _ _ hxy) ih
 
-theorem all2_perm_trans {s1 s2 s3 : List (Nat × List V)}
-    (h12 : All2 (fun p q => p.1 = q.1 ∧ p.2.Perm q.2) s1 s2)
-    (h32 : All2 (fun p q => p.1 = q.1 ∧ p.2.Perm q.2) s3 s2) :
-    All2 (fun p q => p.1 = q.1 ∧ p.2.Perm q.2) s1 s3 := by
-  induction h12 generalizing s3 with
-  | nil => cases h32; exact All2.nil
+theorem All2.map_fun2 {α β γ δ : Type} {R : α → β → Prop} {S : γ → δ → Prop} {fs : List (α → α → γ)}
+    {gs : List (β → β → δ)} {x x' : α} {y y' : β}
+    (h : All2 (fun f g => ∀ x y x' y', R x y → R x' y' → S (f x x') (g y y')) fs gs) (hxy : R x y)
+    (hxy' : R x' y') : All2 S (fs.map fun f => f x x') (gs.map fun g => g y y') := by
+  induction h with
+  | nil => exact All2.nil
+  | cons hr _ ih => exact All2.cons (hr _ _ _ _ hxy hxy') ih
+
+theorem All2.imp {α β : Type} {R R' : α → β → Prop} {a : List α} {b : List β} (h : All2 R a b)
+    (hi : ∀ x y, R x y → R' x y) : All2 R' a b := by
+  induction h with
+  | nil => exact All2.nil
+  | cons hr _ ih => exact All2.cons (hi _ _ hr) ih
+
+theorem All2.map_left {α β γ : Type} {R : γ → β → Prop} {f : α → γ} {a : List α} {b : List β}
+    (h : All2 (fun x y => R (f x) y) a b) : All2 R (a.map f) b := by
+  induction h with
+  | nil => exact All2.nil
+  | cons hr _ ih => exact All2.cons hr ih
+
+theorem All2.map_right {α β γ : Type} {R : α → γ → Prop} {f : β → γ} {a : List α} {b : List β}
+    (h : All2 (fun x y => R x (f y)) a b) : All2 R a (b.map f) := by
+  induction h with
+  | nil => exact All2.nil
+  | cons hr _ ih => exact All2.cons hr ih
+
+/-- chaining two pointwise relations over a common middle list -/
+theorem All2.comp {α β γ : Type} {R : α → β → Prop} {Q : β → γ → Prop} {T : α → γ → Prop}
+    {a : List α} {b : List β} {c : List γ} (h1 : All2 R a b) (h2 : All2 Q b c)
+    (ht : ∀ x y z, R x y → Q y z → T x z) : All2 T a c := by
+  induction h1 generalizing c with
+  | nil => cases h2; exact All2.nil
   | cons hr _ ih =>
-    cases h32 with
-    | cons hr' ht => exact All2.cons ⟨hr.1.trans hr'.1.symm, hr.2.trans hr'.2.symm⟩ (ih ht)
+    cases h2 with
+    | cons hq hqs => exact All2.cons (ht _ _ _ hr hq) (ih hqs)
+
+section Sim
+variable {σ₁ σ₂ : Type} (R : Bool → σ₁ → σ₂ → Prop) (S : σ₁ → σ₂ → Prop)
+
+def EntryRel (e1 : Entry σ₁) (e2 : Entry σ₂) : Prop :=
+  e1.id = e2.id ∧ e1.keyed = e2.keyed ∧ All2 (R e1.keyed) e1.ports e2.ports
+
+def SinkRel (p1 : Nat × σ₁) (p2 : Nat × σ₂) : Prop := p1.1 = p2.1 ∧ S p1.2 p2.2
+
+def StRel (s1 : St σ₁) (s2 : St σ₂) : Prop :=
+  All2 (EntryRel R) s1.env s2.env ∧ All2 (SinkRel S) s1.sinks s2.sinks
+
+variable {R S}
+
+theorem StRel.defined {s1 : St σ₁} {s2 : St σ₂} (hs : StRel R S s1 s2) (id : Nat) :
+    s1.defined id = s2.defined id := by
+  unfold St.defined
+  rw [hs.1.any_eq _ _ (fun x y hr => by rw [hr.1]), hs.2.any_eq _ _ (fun x y hr => by rw [hr.1])]
+
+theorem lookup_rel {e1 : List (Entry σ₁)} {e2 : List (Entry σ₂)} (he : All2 (EntryRel R) e1 e2)
+    (id : Nat) : (lookup id e1 = none ∧ lookup id e2 = none) ∨
+      ∃ x y, lookup id e1 = some x ∧ lookup id e2 = some y ∧ EntryRel R x y := by
+  induction he with
+  | nil => simp [lookup]
+  | @cons a b as bs hr _ ih =>
+    simp only [lookup]
+    rw [← hr.1]
+    by_cases hid : a.id = id
+    · simp only [hid, if_true]; exact Or.inr ⟨a, b, rfl, rfl, hr⟩
+    · simpa [hid] using ih
+
+/-- related states answer a reference alike -/
+def GetRel (R : Bool → σ₁ → σ₂ → Prop) (kd : Option Bool) : Option σ₁ → Option σ₂ → Prop
+  | none, none => True
+  | some x, some y => ∃ k, kd.all (· == k) = true ∧ R k x y
+  | _, _ => False
+
+theorem StRel.get {s1 : St σ₁} {s2 : St σ₂} (hs : StRel R S s1 s2) (r : Ref) (kd : Option Bool) :
+    GetRel R kd (s1.get r kd) (s2.get r kd) := by
+  unfold St.get
+  rcases lookup_rel hs.1 r.id with ⟨h1, h2⟩ | ⟨x, y, h1, h2, hr⟩
+  · simp [h1, h2, GetRel]
+  · simp only [h1, h2]
+    rw [← hr.2.1]
+    by_cases hk : kd.all (· == x.keyed) = true
+    · simp only [hk, if_true]
+      rcases hr.2.2.get? r.port with ⟨g1, g2⟩ | ⟨a, b, g1, g2, hab⟩
+      · simp [g1, g2, GetRel]
+      · simp only [g1, g2, GetRel]; exact ⟨x.keyed, hk, hab⟩
+    · simp [hk, GetRel]
+
+/-- related node semantics: same shape, same references, functions preserve the relation -/
+inductive SemRel (R : Bool → σ₁ → σ₂ → Prop) (S : σ₁ → σ₂ → Prop) : Sem σ₁ → Sem σ₂ → Prop
+  | src {v1 v2} : R false v1 v2 → SemRel R S (.src v1) (.src v2)
+  | un {a kin kout f1 f2} : (∀ x y, R kin x y → R kout (f1 x) (f2 y)) →
+      SemRel R S (.un a kin kout f1) (.un a kin kout f2)
+  | bin {a b kin kout f1 f2} :
+      (∀ x y x' y', R kin x y → R kin x' y' → R kout (f1 x x') (f2 y y')) →
+      SemRel R S (.bin a b kin kout f1) (.bin a b kin kout f2)
+  | multi {a fs1 fs2} : All2 (fun f1 f2 => ∀ x y, R false x y → R false (f1 x) (f2 y)) fs1 fs2 →
+      SemRel R S (.multi a fs1) (.multi a fs2)
+  | bmulti {a b fs1 fs2} :
+      All2 (fun f1 f2 => ∀ x y x' y', R false x y → R false x' y' → R false (f1 x x') (f2 y y')) fs1 fs2 →
+      SemRel R S (.bmulti a b fs1) (.bmulti a b fs2)
+  | sink {a f1 f2} : (∀ k x y, R k x y → S (f1 x) (f2 y)) → SemRel R S (.sink a f1) (.sink a f2)
+
+def OutRel (R : Bool → σ₁ → σ₂ → Prop) (S : σ₁ → σ₂ → Prop) :
+    Option (Bool × List σ₁ × Option σ₁) → Option (Bool × List σ₂ × Option σ₂) → Prop
+  | none, none => True
+  | some (k1, p1, none), some (k2, p2, none) => k1 = k2 ∧ All2 (R k1) p1 p2
+  | some (_, _, some v1), some (_, _, some v2) => S v1 v2
+  | _, _ => False
+
+theorem getRel_some_kind {b : Bool} {o1 : Option σ₁} {o2 : Option σ₂} (hg : GetRel R (some b) o1 o2) :
+    (o1 = none ∧ o2 = none) ∨ ∃ x y, o1 = some x ∧ o2 = some y ∧ R b x y := by
+  cases o1 <;> cases o2 <;> simp [GetRel] at hg ⊢
+  exact hg
+
+theorem runSem_rel {s1 : St σ₁} {s2 : St σ₂} {m1 m2} (hs : StRel R S s1 s2) (hm : SemRel R S m1 m2) :
+    OutRel R S (runSem s1 m1) (runSem s2 m2) := by
+  cases hm with
+  | src hv => exact ⟨rfl, All2.cons hv All2.nil⟩
+  | @un a kin kout f1 f2 hf =>
+    simp only [runSem]
+    rcases getRel_some_kind (hs.get a (some kin)) with ⟨h1, h2⟩ | ⟨x, y, h1, h2, hr⟩
+    · simp [h1, h2, OutRel]
+    · simp only [h1, h2, Option.bind_some, OutRel]; exact ⟨trivial, All2.cons (hf x y hr) All2.nil⟩
+  | @bin a b kin kout f1 f2 hf =>
+    simp only [runSem]
+    rcases getRel_some_kind (hs.get a (some kin)) with ⟨h1, h2⟩ | ⟨x, y, h1, h2, hr⟩
+    · simp [h1, h2, OutRel]
+    · rcases getRel_some_kind (hs.get b (some kin)) with ⟨g1, g2⟩ | ⟨x', y', g1, g2, hr'⟩
+      · simp [h1, h2, g1, g2, OutRel]
+      · simp only [h1, h2, g1, g2, Option.bind_some, OutRel]
+        exact ⟨trivial, All2.cons (hf x y x' y' hr hr') All2.nil⟩
+  | @multi a fs1 fs2 hf =>
+    simp only [runSem]
+    rcases getRel_some_kind (hs.get a (some false)) with ⟨h1, h2⟩ | ⟨x, y, h1, h2, hr⟩
+    · simp [h1, h2, OutRel]
+    · simp only [h1, h2, Option.bind_some, OutRel]; exact ⟨trivial, hf.map_fun hr⟩
+  | @bmulti a b fs1 fs2 hf =>
+    simp only [runSem]
+    rcases getRel_some_kind (hs.get a (some false)) with ⟨h1, h2⟩ | ⟨x, y, h1, h2, hr⟩
+    · simp [h1, h2, OutRel]
+    · rcases getRel_some_kind (hs.get b (some false)) with ⟨g1, g2⟩ | ⟨x', y', g1, g2, hr'⟩
+      · simp [h1, h2, g1, g2, OutRel]
+      · simp only [h1, h2, g1, g2, Option.bind_some, OutRel]
+        exact ⟨trivial, hf.map_fun2 hr hr'⟩
+  | @sink a f1 f2 hf =>
+    simp only [runSem]
+    have hg := hs.get a none
+    cases h1 : s1.get a none <;> cases h2 : s2.get a none <;> simp [h1, h2, GetRel] at hg
+    · simp [OutRel]
+    · simp only [Option.bind_some, OutRel]
+      rcases hg with hr | hr <;> exact hf _ _ _ hr
+
+theorem stepWith_rel {s1 : St σ₁} {s2 : St σ₂} {sem1 : Node → Sem σ₁} {sem2 : Node → Sem σ₂} (n : Node)
+    (hs : StRel R S s1 s2) (hm : SemRel R S (sem1 n) (sem2 n)) :
+    StRel R S (stepWith sem1 s1 n) (stepWith sem2 s2 n) := by
+  unfold stepWith
+  rw [hs.defined n.id]
+  split
+  · exact hs
+  · have ho := runSem_rel hs hm
+    generalize runSem s1 (sem1 n) = o1 at ho
+    generalize runSem s2 (sem2 n) = o2 at ho
+    match o1, o2, ho with
+    | none, none, _ => exact hs
+    | some (k1, p1, none), some (k2, p2, none), ho =>
+      obtain ⟨hk, hp⟩ := ho
+      subst hk
+      exact ⟨hs.1.append (All2.cons ⟨rfl, rfl, hp⟩ All2.nil), hs.2⟩
+    | some (_, _, some v1), some (_, _, some v2), ho =>
+      exact ⟨hs.1, hs.2.append (All2.cons ⟨rfl, ho⟩ All2.nil)⟩
+
+theorem foldl_stepWith_rel {sem1 : Node → Sem σ₁} {sem2 : Node → Sem σ₂} (job : Job)
+    (hm : ∀ n ∈ job, SemRel R S (sem1 n) (sem2 n)) {s1 : St σ₁} {s2 : St σ₂} (hs : StRel R S s1 s2) :
+    StRel R S (job.foldl (stepWith sem1) s1) (job.foldl (stepWith sem2) s2) := by
+  induction job generalizing s1 s2 with
+  | nil => exact hs
+  | cons n job ih =>
+    simp only [foldl_cons]
+    exact ih (fun m hm' => hm m (by simp [hm'])) (stepWith_rel n hs (hm n (by simp)))
+
+theorem stRel_init : StRel R S ({} : St σ₁) ({} : St σ₂) := ⟨All2.nil, All2.nil⟩
+
+end Sim
+
+
+/-! ### Part F — the invariant and its preservation by every covered stage -/
+
+/-- **the invariant** for a covered stream: at least one replica; a single one if the tag says so;
+    the union of the replicas is the sequential value (as a multiset); a keyed stream tagged
+    co-located has equal keys on one replica -/
+structure Good (h : V → Nat) (kd : Bool) (t : Tag) (dv : D) (sv : List V) : Prop where
+  ne : dv ≠ []
+  single : t.single = true → dv.length ≤ 1
+  perm : dv.flatten.Perm sv
+  coloc : kd = true → t.coloc = true → Coloc h dv
+
+def RelT (h : V → Nat) (kd : Bool) (dv : D) (ts : Tag × List V) : Prop :=
+  ts.1.ok = true → Good h kd ts.1 dv ts.2
+
+def SinkT (dv : D) (ts : Tag × List V) : Prop := ts.1.ok = true → dv.flatten.Perm ts.2
+
+theorem coloc_of_single (h : V → Nat) (d : D) (hd : d.length ≤ 1) : Coloc h d := by
+  intro j l hj p _
+  have hj' : j < d.length := by
+    rcases Nat.lt_or_ge j d.length with hlt | hge
+    · exact hlt
+    · rw [getElem?_eq_none hge] at hj; cases hj
+  have : d.length = 1 := by omega
+  rw [this]; omega
+
+theorem ne_map {f : List V → List V} {d : D} (h : d ≠ []) : d.map f ≠ [] := by
+  cases d <;> simp at h ⊢
+
+theorem good_map_plain {h : V → Nat} {kin : Bool} {t t' : Tag} {x : D} {y : List V}
+    (f : List V → List V) (h0 : f [] = []) (ha : ∀ a b, f (a ++ b) = f a ++ f b)
+    (hperm : ∀ l l' : List V, l.Perm l' → (f l).Perm (f l')) (hg : Good h kin t x y)
+    (hs : t'.single = true → t.single = true) : Good h false t' (x.map f) (f y) :=
+  ⟨ne_map hg.ne, fun e => by rw [length_map]; exact hg.single (hs e),
+   by rw [flatten_map_hom f h0 ha]; exact hperm _ _ hg.perm, fun e => by cases e⟩
+
+theorem good_map_keyed {h : V → Nat} {t : Tag} {x : D} {y : List V}
+    (f : List V → List V) (h0 : f [] = []) (ha : ∀ a b, f (a ++ b) = f a ++ f b)
+    (hperm : ∀ l l' : List V, l.Perm l' → (f l).Perm (f l'))
+    (hk : ∀ l p, p ∈ f l → ∃ q ∈ l, q.fst = p.fst) (hg : Good h true t x y) :
+    Good h true t (x.map f) (f y) :=
+  ⟨ne_map hg.ne, fun e => by rw [length_map]; exact hg.single e,
+   by rw [flatten_map_hom f h0 ha]; exact hperm _ _ hg.perm,
+   fun _ e => coloc_map f x (hg.coloc rfl e) hk⟩
+
+theorem ne_of_length_pos {d : D} (h : 0 < d.length) : d ≠ [] := by
+  cases d <;> simp at h ⊢
+
+theorem good_exchange {h : V → Nat} {kin : Bool} {t t' : Tag} {x : D} {y : List V}
+    (n : Nat) (ch : Nat → V → Nat) (c : Nat → Nat) (hn : 0 < n) (hg : Good h kin t x y)
+    (hs : t'.single = true → n = 1) : Good h false t' (exchange n ch c x) y :=
+  ⟨ne_of_length_pos (by rw [length_exchange]; exact hn),
+   fun e => by rw [length_exchange, hs e]; exact Nat.le_refl 1,
+   (exchange_perm n ch c x hn).trans hg.perm, fun e => by cases e⟩
+
+theorem good_gather {h : V → Nat} {kin : Bool} {t t' : Tag} {x : D} {y : List V} (c : Nat → Nat)
+    (f : List V → List V) (hf : ∀ l l' : List V, l.Perm l' → f l = f l') (hg : Good h kin t x y) :
+    Good h false t' ((gather c x).map f) (f y) :=
+  ⟨by simp [gather], fun _ => by simp [gather],
+   by simp only [gather, map_cons, map_nil, flatten_cons, flatten_nil, append_nil]
+      rw [hf _ _ ((permBy_perm c _).trans hg.perm)],
+   fun e => by cases e⟩
+
+theorem un_of_good {h : V → Nat} {a : Ref} {kin kout : Bool} (k : Kind) {f1 : D → D}
+    {f2 : List V → List V}
+    (hmono : ∀ t, (k.tagUn t).ok = true → t.ok = true)
+    (hg : ∀ t x y, Good h kin t x y → (k.tagUn t).ok = true → Good h kout (k.tagUn t) (f1 x) (f2 y)) :
+    SemRel (RelT h) SinkT (.un a kin kout f1) (.un a kin kout fun x => (k.tagUn x.1, f2 x.2)) :=
+  .un fun x ts hr hok => hg ts.1 x ts.2 (hr (hmono _ hok)) hok
+
+theorem bin_of_good {h : V → Nat} {a b : Ref} {kin kout : Bool} (k : Kind) {f1 : D → D → D}
+    {f2 : List V → List V → List V}
+    (hmono : ∀ t t', (k.tagBin t t').ok = true → t.ok = true ∧ t'.ok = true)
+    (hg : ∀ t t' x y x' y', Good h kin t x y → Good h kin t' x' y' → (k.tagBin t t').ok = true →
+      Good h kout (k.tagBin t t') (f1 x x') (f2 y y')) :
+    SemRel (RelT h) SinkT (.bin a b kin kout f1)
+      (.bin a b kin kout fun x y => (k.tagBin x.1 y.1, f2 x.2 y.2)) :=
+  .bin fun x ts x' ts' hr hr' hok =>
+    hg ts.1 ts'.1 x ts.2 x' ts'.2 (hr (hmono _ _ hok).1) (hr' (hmono _ _ hok).2) hok
+
+theorem length_zipAppend_le (x y : D) : (zipAppend x y).length ≤ max x.length y.length := by
+  induction x generalizing y with
+  | nil => simp [zipAppend]
+  | cons l d ih =>
+    cases y with
+    | nil => simp [zipAppend]
+    | cons l' d' => simp only [zipAppend, length_cons]; have := ih d'; omega
+
+theorem zipAppend_ne {x y : D} (hx : x ≠ []) : zipAppend x y ≠ [] := by
+  cases x <;> cases y <;> simp [zipAppend] at hx ⊢
+
+
+/-- **two-phase keyed aggregation as a stage** (`group_by_fold` and friends): phase 1 per replica of
+    the producer, partial results hash-routed by key, phase 2 per replica of the consumer -/
+theorem good_gb {h : V → Nat} {t t' : Tag} {x : D} {y : List V} {ψ₁ ψ₂ : V → List V → List V}
+    (h1 : KeyedFn ψ₁) (h2 : KeyedFn ψ₂) (hne : ∀ k vs, vs ≠ [] → ψ₁ k vs ≠ [])
+    (hlaw : ∀ k (parts : D), ψ₂ k (parts.map fun p => valsOf k (keyedGen ψ₁ p)).flatten =
+      ψ₁ k (valsOf k parts.flatten))
+    (f : KeyFn) (k : Int) (n : Nat) (hn : 0 < n) (c : Nat → Nat) (hg : Good h false t x y)
+    (hs : t'.single = false) :
+    Good h true t'
+      ((exchange n (fun _ v => h v.fst) c (x.map fun l => keyedGen ψ₁ (keyByS f k l))).map (keyedGen ψ₂))
+      (keyedGen ψ₁ (keyByS f k y)) := by
+  have hcol := coloc_exchange h n c (x.map fun l => keyedGen ψ₁ (keyByS f k l))
+  refine Good.mk (ne_map (ne_of_length_pos (by rw [length_exchange]; exact hn)))
+    (fun e => by rw [hs] at e; cases e) ?_ (fun _ _ => coloc_map _ _ hcol (keyedGen_keys h2))
+  rw [flatten_map_keyedGen _ hcol]
+  refine (keyedGen_perm h2 (exchange_perm n _ c _ hn)).trans ?_
+  rw [flatten_map_map (keyByS f k) (keyedGen ψ₁)]
+  refine (keyedGen_twoPhase h1 hne hlaw _).trans ?_
+  apply keyedGen_perm h1
+  rw [flatten_map_hom (keyByS f k) rfl (by simp [keyByS])]
+  exact hg.perm.map _
+
+/-! ### loops -/
+
+theorem foldl_glob_ne (g : Agg) (a : Int) (ys : List Int) (hne : ys ≠ []) (hy : ∀ y ∈ ys, g.norm y) :
+    ys.foldl g.glob a = g.glob a (ys.foldl g.glob 0) := by
+  cases ys with
+  | nil => exact absurd rfl hne
+  | cons y ys =>
+    simp only [foldl_cons]
+    rw [foldl_glob_assoc, glob_zero_left g y (hy y (by simp))]
+
+/-- the state update of one round: the leader's fold of the per-replica deltas (any arrival order)
+    is the global step applied to the local fold of the whole round output -/
+theorem state_update (agg : Agg) (c : Nat → Nat) (st : Int) (out : D) (outs : List V) (hne : out ≠ [])
+    (hp : out.flatten.Perm outs) :
+    (projs (permBy c (out.map fun l => V.int ((projs l).foldl agg.loc 0)))).foldl agg.glob st =
+      agg.glob st ((projs outs).foldl agg.loc 0) := by
+  have h1 : (projs (permBy c (out.map fun l => V.int ((projs l).foldl agg.loc 0)))).Perm
+      ((out.map projs).map (F agg)) := by
+    have := (permBy_perm c (out.map fun l => V.int ((projs l).foldl agg.loc 0))).map V.proj
+    simpa [projs, V.proj, F, Function.comp_def] using this
+  rw [foldl_glob_perm agg h1 st, foldl_glob_ne agg st _ (by cases out <;> simp at hne ⊢)
+    (by intro y hy; obtain ⟨p, _, rfl⟩ := mem_map.mp hy; exact F_norm agg p),
+    twoPhase_sum, flatten_map_projs]
+  congr 1
+  exact F_perm agg (hp.map V.proj |> fun e => (by simpa [projs] using e))
+
+/-- a parallel body and a sequential body are related -/
+def BodyRel (bp : Int → D → D) (bs : Int → List V → List V) : Prop :=
+  ∀ st x y, x ≠ [] → x.flatten.Perm y → bp st x ≠ [] ∧ (bp st x).flatten.Perm (bs st y)
+
+/-- **loop_seq**: with related bodies, the parallel loop protocol computes the same state in every
+    round (hence runs the same number of rounds) and related final outputs -/
+theorem loop_rel (fb : Bool) {bp : Int → D → D} {bs : Int → List V → List V} (hb : BodyRel bp bs)
+    (agg : Agg) (cp : PredFn) (ck : Int) (c : Nat → Nat) (n : Nat) (st : Int) (x : D) (y : List V)
+    (hne : x ≠ []) (hp : x.flatten.Perm y) :
+    (parLoopRun fb bp agg cp ck c n st x).1 = (loopRun fb bs agg cp ck n st y).1 ∧
+    (parLoopRun fb bp agg cp ck c n st x).2 ≠ [] ∧
+    (parLoopRun fb bp agg cp ck c n st x).2.flatten.Perm (loopRun fb bs agg cp ck n st y).2 := by
+  induction n generalizing st x y with
+  | zero => exact ⟨rfl, hne, hp⟩
+  | succ n ih =>
+    obtain ⟨hone, hop⟩ := hb st x y hne hp
+    simp only [parLoopRun, loopRun]
+    rw [state_update agg c st (bp st x) (bs st y) hone hop]
+    split
+    · cases fb
+      · exact ih _ x y hne hp
+      · exact ih _ _ _ hone hop
+    · exact ⟨rfl, hone, hop⟩
+
+theorem bodyRel_foldl {α : Type} (ss : List α) (fp : α → Int → D → D) (fs : α → Int → List V → List V)
+    (h : ∀ s ∈ ss, BodyRel (fp s) (fs s)) :
+    BodyRel (fun st x => ss.foldl (fun acc s => fp s st acc) x)
+      (fun st y => ss.foldl (fun acc s => fs s st acc) y) := by
+  induction ss with
+  | nil => intro st x y hne hp; exact ⟨hne, hp⟩
+  | cons s ss ih =>
+    intro st x y hne hp
+    simp only [foldl_cons]
+    obtain ⟨h1, h2⟩ := h s (by simp) st x y hne hp
+    exact ih (fun s' hs' => h s' (by simp [hs'])) st _ _ h1 h2
+
+theorem bodyRel_hom (f : Int → List V → List V) (h0 : ∀ st, f st [] = [])
+    (ha : ∀ st a b, f st (a ++ b) = f st a ++ f st b)
+    (hperm : ∀ st (l l' : List V), l.Perm l' → (f st l).Perm (f st l')) :
+    BodyRel (fun st d => d.map (f st)) f := by
+  intro st x y hne hp
+  exact ⟨ne_map hne, by rw [flatten_map_hom (f st) (h0 st) (ha st)]; exact hperm st _ _ hp⟩
+
+/-- **every body stage, at every nesting depth**: the parallel stage and the sequential stage are
+    related, for every distribution `sp` (at least one replica) of the side input `ss` -/
+theorem stage_rel (n : Nat) (hn : 0 < n) (o : Orc) (id : Nat) (sp : D) (ss : List V) (hsne : sp ≠ [])
+    (hsp : sp.flatten.Perm ss) (fuel : Nat) (s : BStage) :
+    BodyRel (parStage n o id sp fuel s) (evalStage ss fuel s) := by
+  induction fuel generalizing s with
+  | zero => intro st x y hne hp; simpa [parStage, evalStage] using ⟨hne, hp⟩
+  | succ fuel ih =>
+    have e1 : ∀ g, keyedFoldS g = keyedGen (ψFold g) := fun g => funext (keyedFoldS_gen g)
+    have e2 : ∀ g, keyedCombineS g = keyedGen (ψComb g) := fun g => funext (keyedCombineS_gen g)
+    have mkGood : ∀ {x : D} {y : List V}, x ≠ [] → x.flatten.Perm y →
+        Good o.hash false ⟨true, false, false⟩ x y := fun hne hp =>
+      Good.mk hne (fun e => by simp at e) hp (fun e => by simp at e)
+    cases s with
+    | map f k =>
+      simp only [parStage, evalStage]
+      exact bodyRel_hom (fun _ => List.map (f.eval k)) (fun _ => rfl) (by simp) (fun _ _ _ hp => hp.map _)
+    | filter f k =>
+      simp only [parStage, evalStage]
+      exact bodyRel_hom (fun _ => List.filter (f.eval k)) (fun _ => rfl) (by simp)
+        (fun _ _ _ hp => hp.filter _)
+    | fmap f k =>
+      simp only [parStage, evalStage]
+      exact bodyRel_hom (fun _ => List.flatMap (f.eval k)) (fun _ => rfl) (by simp)
+        (fun _ _ _ hp => hp.flatMap_right _)
+    | shuffle =>
+      intro st x y hne hp
+      simp only [parStage, evalStage]
+      exact ⟨ne_of_length_pos (by rw [length_exchange]; exact hn), (exchange_perm _ _ _ _ hn).trans hp⟩
+    | addst k =>
+      simp only [parStage, evalStage]
+      exact bodyRel_hom (fun st => List.map fun v => V.int (v.proj + emod st k)) (fun _ => rfl) (by simp)
+        (fun _ _ _ hp => hp.map _)
+    | gbsum f k =>
+      intro st x y hne hp
+      simp only [parStage, evalStage, gbSumS]
+      rw [e1, e2]
+      have := good_gb (t' := ⟨true, true, false⟩) (keyedFn_fold .sum) (keyedFn_comb .sum) (ψFold_ne .sum)
+        (fold_law .sum) f k n hn (o.merge id) (mkGood hne hp) rfl
+      refine ⟨ne_map this.ne, ?_⟩
+      rw [flatten_map_hom (List.map V.snd) rfl (by simp)]
+      exact this.perm.map _
+    | gbfold f k g =>
+      intro st x y hne hp
+      simp only [parStage, evalStage]
+      rw [e1, e2]
+      have := good_gb (t' := ⟨true, true, false⟩) (keyedFn_fold g) (keyedFn_comb g) (ψFold_ne g)
+        (fold_law g) f k n hn (o.merge id) (mkGood hne hp) rfl
+      exact ⟨this.ne, this.perm⟩
+    | gbwin f k w sl =>
+      intro st x y hne hp
+      simp only [parStage, evalStage]
+      have ew : keyedWinS w sl .cnt = keyedGen (ψWin w sl) := funext (keyedWinS_gen w sl)
+      rw [ew]
+      have hcol := coloc_exchange o.hash n (o.merge id) (x.map (keyByS f k))
+      refine ⟨ne_map (ne_of_length_pos (by rw [length_exchange]; exact hn)), ?_⟩
+      show ((exchange n (fun _ v => o.hash v.fst) (o.merge id) (x.map (keyByS f k))).map
+        (keyedGen (ψWin w sl))).flatten.Perm _
+      rw [flatten_map_keyedGen _ hcol]
+      apply keyedGen_perm (keyedFn_win w sl)
+      refine (exchange_perm _ _ _ _ hn).trans ?_
+      rw [flatten_map_hom (keyByS f k) rfl (by simp [keyByS])]
+      exact hp.map _
+    | joinside f1 k1 f2 k2 =>
+      intro st x y hne hp
+      simp only [parStage, evalStage, joinSideS]
+      have hx := copart_exchange o.hash (f1.eval k1) n (o.merge id) x
+      have hy := copart_exchange o.hash (f2.eval k2) n (o.merge id) sp
+      have hlen : (exchange n (fun _ e => o.hash (f1.eval k1 e)) (o.merge id) x).length =
+          (exchange n (fun _ e => o.hash (f2.eval k2 e)) (o.merge id) sp).length := by
+        rw [length_exchange, length_exchange]
+      refine ⟨ne_map (ne_of_length_pos (by
+        rw [length_zipWith, length_exchange, length_exchange]; simpa using hn)), ?_⟩
+      rw [flatten_map_hom (List.map V.snd) rfl (by simp)]
+      apply Perm.map
+      refine (join_copart o.hash .inner _ _ _ 0 _ _ hlen hx hy).trans ?_
+      exact joinS_perm .inner _ _ ((exchange_perm _ _ _ _ hn).trans hp)
+        ((exchange_perm _ _ _ _ hn).trans hsp)
+    | mergeside =>
+      intro st x y hne hp
+      simp only [parStage, evalStage]
+      exact ⟨ne_map (zipAppend_ne hne),
+        (flatten_map_perm (permBy_perm _) _).trans ((zipAppend_perm x sp).trans (hp.append hsp))⟩
+    | reduce g =>
+      intro st x y hne hp
+      simp only [parStage, evalStage, gather, map_cons, map_nil, flatten_cons, flatten_nil, append_nil]
+      refine ⟨by simp, ?_⟩
+      rw [reduceS_perm g ((permBy_perm _ _).trans hp)]
+    | replay l =>
+      cases l with
+      | mk iters init agg cp ck body =>
+        intro st x y hne hp
+        simp only [parStage, evalStage]
+        have hb := bodyRel_foldl body (fun s => parStage n o id sp fuel s) (fun s => evalStage ss fuel s)
+          (fun s _ => ih s)
+        have := loop_rel false hb agg cp ck (o.merge id) (max iters 1) init x y hne hp
+        refine ⟨by simp, ?_⟩
+        simp only [flatten_cons, flatten_nil, append_nil]
+        rw [this.1]
+    | iterate l =>
+      cases l with
+      | mk iters init agg cp ck body =>
+        intro st x y hne hp
+        simp only [parStage, evalStage]
+        have hb := bodyRel_foldl body (fun s => parStage n o id sp fuel s) (fun s => evalStage ss fuel s)
+          (fun s _ => ih s)
+        have := loop_rel true hb agg cp ck (o.merge id) (max iters 1) init x y hne hp
+        refine ⟨by simp, ?_⟩
+        simp only [flatten_cons, flatten_nil, append_nil]
+        rw [this.1]
+
+/-- **replay_seq / iterate_seq**: a whole loop (any nesting of `replay` / `iterate` in the body, side
+    input included) run with the parallel protocol ends in the same state as the sequential loop,
+    and (for `iterate`) delivers the same multiset of items -/
+theorem loopSpec_rel (fb : Bool) (n : Nat) (hn : 0 < n) (o : Orc) (id : Nat) (fuel : Nat) (sp : D)
+    (ss : List V) (hsne : sp ≠ []) (hsp : sp.flatten.Perm ss) (l : LoopSpec)
+    (x : D) (y : List V) (hne : x ≠ []) (hp : x.flatten.Perm y) :
+    (l.parRun fb n o id fuel sp x).1 = (l.run fb fuel ss y).1 ∧ (l.parRun fb n o id fuel sp x).2 ≠ [] ∧
+    (l.parRun fb n o id fuel sp x).2.flatten.Perm (l.run fb fuel ss y).2 := by
+  cases l with
+  | mk iters init agg cp ck body =>
+    simp only [LoopSpec.parRun, LoopSpec.run]
+    have hb : BodyRel (parBody n o id sp fuel body) (evalBody ss fuel body) :=
+      bodyRel_foldl body (fun s => parStage n o id sp fuel s) (fun s => evalStage ss fuel s)
+        (fun s _ => stage_rel n hn o id sp ss hsne hsp fuel s)
+    exact loop_rel fb hb agg cp ck (o.merge id) (max iters 1) init x y hne hp
+
+theorem tag_mono_simp {a b : Bool} (h : (a && b) = true) : a = true := by
+  cases a <;> simp_all
+
+/-- every node: the parallel semantics and the tagged sequential semantics are related -/
+theorem semRel_tag (cfg : Cfg) (o : Orc) (n : Node) :
+    SemRel (RelT o.hash) SinkT (parSem cfg o n) (tagSem n) := by
+  obtain ⟨id, kind⟩ := n
+  cases kind <;> simp only [parSem, tagSem, seqSem]
+  case iter l =>
+    exact .src fun _ => Good.mk (by simp) (fun _ => by simp) (by simp) (fun e => by simp at e)
+  case par lo hi =>
+    refine .src fun _ => Good.mk ?_ (fun e => by simp at e) ?_ (fun e => by simp at e)
+    · exact ne_of_length_pos (by rw [length_routeInto]; simpa using count_pos cfg .u)
+    · have := flatten_routeInto (cfg.count .u) (fun i _ => o.route id i) 0 (rangeV lo hi)
+        (replicate (cfg.count .u) []) (count_pos cfg .u) (by simp)
+      simpa using this
+  case map a f k =>
+    exact un_of_good (.map a f k) (fun t ht => ht) fun t x y hg _ =>
+      good_map_plain (List.map (f.eval k)) rfl (by simp) (fun _ _ hp => hp.map _) hg (fun e => e)
+  case filter a f k =>
+    exact un_of_good (.filter a f k) (fun t ht => ht) fun t x y hg _ =>
+      good_map_plain (List.filter (f.eval k)) rfl (by simp) (fun _ _ hp => hp.filter _) hg (fun e => e)
+  case fmap a f k =>
+    exact un_of_good (.fmap a f k) (fun t ht => ht) fun t x y hg _ =>
+      good_map_plain (List.flatMap (f.eval k)) rfl (by simp) (fun _ _ hp => hp.flatMap_right _) hg
+        (fun e => e)
+  case shuffle a =>
+    exact un_of_good (.shuffle a) (fun t ht => ht) fun t x y hg _ =>
+      good_exchange _ _ _ (count_pos cfg .u) hg (fun e => by simp [Kind.tagUn] at e)
+  case repl a r =>
+    exact un_of_good (.repl a r) (fun t ht => ht) fun t x y hg _ =>
+      good_exchange _ _ _ (count_pos cfg r) hg (fun e => by
+        simp only [Kind.tagUn, beq_iff_eq] at e; subst e; rfl)
+  case repart a r f k =>
+    exact un_of_good (.repart a r f k) (fun t ht => ht) fun t x y hg _ =>
+      good_exchange _ _ _ (count_pos cfg r) hg (fun e => by
+        simp only [Kind.tagUn, beq_iff_eq] at e; subst e; rfl)
+  case groupBy a f k =>
+    refine un_of_good (.groupBy a f k) (fun t ht => ht) fun t x y hg _ => Good.mk ?_ ?_ ?_ ?_
+    · exact ne_of_length_pos (by rw [length_exchange]; exact count_pos cfg .u)
+    · intro e; simp [Kind.tagUn] at e
+    · refine (exchange_perm _ _ _ _ (count_pos cfg .u)).trans ?_
+      rw [flatten_map_hom (keyByS f k) rfl (by simp [keyByS])]
+      exact hg.perm.map _
+    · intro _ _; exact coloc_exchange o.hash _ _ _
+  case keyBy a f k =>
+    refine un_of_good (.keyBy a f k) (fun t ht => ht) fun t x y hg _ => Good.mk (ne_map hg.ne) ?_ ?_ ?_
+    · intro e; rw [length_map]; exact hg.single e
+    · rw [flatten_map_hom (keyByS f k) rfl (by simp [keyByS])]
+      exact hg.perm.map _
+    · intro _ e; exact coloc_of_single _ _ (by rw [length_map]; exact hg.single e)
+  case kmap a f k =>
+    exact un_of_good (.kmap a f k) (fun t ht => ht) fun t x y hg _ =>
+      good_map_keyed (kmapS f k) rfl (by simp [kmapS]) (fun _ _ hp => hp.map _) (kmapS_keys f k) hg
+  case kfilter a f k =>
+    exact un_of_good (.kfilter a f k) (fun t ht => ht) fun t x y hg _ =>
+      good_map_keyed (kfilterS f k) rfl (by simp [kfilterS]) (fun _ _ hp => hp.filter _)
+        (kfilterS_keys f k) hg
+  case kfold a g =>
+    refine un_of_good (.kfold a g) (fun t ht => tag_mono_simp ht) fun t x y hg hok => ?_
+    have hc : t.coloc = true := by simp [Kind.tagUn] at hok; exact hok.2
+    have hcol := hg.coloc rfl hc
+    refine Good.mk (ne_map hg.ne) (fun e => by rw [length_map]; exact hg.single e) ?_
+      (fun _ _ => coloc_map _ x hcol (keyedFoldS_keys g))
+    rw [flatten_map_keyedFoldS g x hcol]
+    exact keyedFoldS_perm g hg.perm
+  case unkey a =>
+    exact un_of_good (.unkey a) (fun t ht => ht) fun t x y hg _ =>
+      Good.mk hg.ne hg.single hg.perm (fun e => by cases e)
+  case dropKey a =>
+    exact un_of_good (.dropKey a) (fun t ht => ht) fun t x y hg _ =>
+      good_map_plain (List.map V.snd) rfl (by simp) (fun _ _ hp => hp.map _) hg (fun e => e)
+  case fold a g =>
+    exact un_of_good (.fold a g) (fun t ht => ht) fun t x y hg _ =>
+      good_gather _ (foldS g) (fun _ _ hp => foldS_perm g hp) hg
+  case reduce a g =>
+    exact un_of_good (.reduce a g) (fun t ht => ht) fun t x y hg _ =>
+      good_gather _ (reduceS g) (fun _ _ hp => reduceS_perm g hp) hg
+  case foldA a g =>
+    refine un_of_good (.foldA a g) (fun t ht => ht) fun t x y hg _ =>
+      Good.mk (by simp [gather]) (fun _ => by simp [gather]) ?_ (fun e => by cases e)
+    simp only [gather, map_cons, map_nil, flatten_cons, flatten_nil, append_nil]
+    rw [combine_partials, foldS_perm g hg.perm]
+  case merge a b =>
+    refine bin_of_good (.merge a b) (fun t t' ht => by simpa [Kind.tagBin] using ht)
+      fun t t' x y x' y' hg hg' _ => Good.mk (ne_map (zipAppend_ne hg.ne)) ?_ ?_ (fun e => by cases e)
+    · intro e
+      simp only [Kind.tagBin, Bool.and_eq_true] at e
+      have h1 := hg.single e.1
+      have h2 := hg'.single e.2
+      have := length_zipAppend_le x x'
+      rw [length_map]; omega
+    · exact (flatten_map_perm (permBy_perm _) _).trans ((zipAppend_perm x x').trans (hg.perm.append hg'.perm))
+  case route a ps =>
+    refine .multi ?_
+    rw [map_map]
+    apply All2.map_left
+    apply All2.map_right
+    generalize List.range ps.length = js
+    induction js with
+    | nil => exact All2.nil
+    | cons j js ih =>
+      refine All2.cons (fun x ts hr hok => ?_) ih
+      exact good_map_plain (routeS ps j) rfl (by simp [routeS]) (fun _ _ hp => hp.filter _) (hr hok)
+        (fun e => e)
+  case sink a =>
+    exact .sink fun k x ts hr hok => (gather_perm _ x).trans (hr hok).perm
+  case kwin a w s g =>
+    refine un_of_good (.kwin a w s g)
+      (fun t ht => by simp only [Kind.tagUn, Bool.and_eq_true] at ht; exact ht.1.1) fun t x y hg hok => ?_
+    simp only [Kind.tagUn, Bool.and_eq_true, beq_iff_eq] at hok
+    obtain ⟨⟨_, hc⟩, hgc⟩ := hok
+    subst hgc
+    have hcol := hg.coloc rfl hc
+    have ew : keyedWinS w s .cnt = keyedGen (ψWin w s) := funext (keyedWinS_gen w s)
+    rw [ew]
+    refine Good.mk (ne_map hg.ne) (fun e => by rw [length_map]; exact hg.single e) ?_
+      (fun _ _ => coloc_map _ x hcol (keyedGen_keys (keyedFn_win w s)))
+    rw [flatten_map_keyedGen x hcol]
+    exact keyedGen_perm (keyedFn_win w s) hg.perm
+  case zip a b =>
+    exact bin_of_good (.zip a b) (fun t t' ht => by simp [Kind.tagBin] at ht)
+      (fun t t' x y x' y' _ _ hok => by simp [Kind.tagBin] at hok)
+  case kjoin a b v =>
+    exact bin_of_good (.kjoin a b v) (fun t t' ht => by simp [Kind.tagBin] at ht)
+      (fun t t' x y x' y' _ _ hok => by simp [Kind.tagBin] at hok)
+  case kreduce a g =>
+    refine un_of_good (.kreduce a g) (fun t ht => tag_mono_simp ht) fun t x y hg hok => ?_
+    have hc : t.coloc = true := by simp [Kind.tagUn] at hok; exact hok.2
+    have hcol := hg.coloc rfl hc
+    have he : keyedReduceS g = keyedGen (ψRed g) := funext (keyedReduceS_gen g)
+    rw [he]
+    refine Good.mk (ne_map hg.ne) (fun e => by rw [length_map]; exact hg.single e) ?_
+      (fun _ _ => coloc_map _ x hcol (keyedGen_keys (keyedFn_red g)))
+    rw [flatten_map_keyedGen x hcol]
+    exact keyedGen_perm (keyedFn_red g) hg.perm
+  case reduceA a g =>
+    refine un_of_good (.reduceA a g) (fun t ht => ht) fun t x y hg _ =>
+      Good.mk (by simp [gather]) (fun _ => by simp [gather]) ?_ (fun e => by cases e)
+    simp only [gather, map_cons, map_nil, flatten_cons, flatten_nil, append_nil]
+    rw [reduce_partials, reduceS_perm g hg.perm]
+  case bcast a g =>
+    refine un_of_good (.bcast a g) (fun t ht => tag_mono_simp ht) fun t x y hg hok =>
+      Good.mk (by simp [gather]) (fun _ => by simp [gather]) ?_ (fun e => by cases e)
+    have hgm : (g == .min || g == .max) = true := by
+      simp only [Kind.tagUn, Bool.and_eq_true] at hok; exact hok.2
+    simp only [gather, map_cons, map_nil, flatten_cons, flatten_nil, append_nil]
+    rw [reduce_broadcast g hgm _ (count_pos cfg .u), reduceS_perm g hg.perm]
+  case gbFold a f k g =>
+    have e1 : keyedFoldS g = keyedGen (ψFold g) := funext (keyedFoldS_gen g)
+    have e2 : keyedCombineS g = keyedGen (ψComb g) := funext (keyedCombineS_gen g)
+    rw [e1, e2]
+    exact un_of_good (.gbFold a f k g) (fun t ht => ht) fun t x y hg _ =>
+      good_gb (keyedFn_fold g) (keyedFn_comb g) (ψFold_ne g) (fold_law g) f k _ (count_pos cfg .u) _ hg rfl
+  case gbSum a f k =>
+    have e1 : keyedFoldS .sum = keyedGen (ψFold .sum) := funext (keyedFoldS_gen .sum)
+    have e2 : keyedCombineS .sum = keyedGen (ψComb .sum) := funext (keyedCombineS_gen .sum)
+    rw [e1, e2]
+    exact un_of_good (.gbSum a f k) (fun t ht => ht) fun t x y hg _ =>
+      good_gb (keyedFn_fold .sum) (keyedFn_comb .sum) (ψFold_ne .sum) (fold_law .sum) f k _
+        (count_pos cfg .u) _ hg rfl
+  case gbCount a f k =>
+    have e1 : keyedFoldS .cnt = keyedGen (ψFold .cnt) := funext (keyedFoldS_gen .cnt)
+    have e2 : keyedCombineS .cnt = keyedGen (ψComb .cnt) := funext (keyedCombineS_gen .cnt)
+    rw [e1, e2]
+    exact un_of_good (.gbCount a f k) (fun t ht => ht) fun t x y hg _ =>
+      good_gb (keyedFn_fold .cnt) (keyedFn_comb .cnt) (ψFold_ne .cnt) (fold_law .cnt) f k _
+        (count_pos cfg .u) _ hg rfl
+  case gbReduce a f k g =>
+    have e1 : keyedReduceS g = keyedGen (ψRed g) := funext (keyedReduceS_gen g)
+    rw [e1]
+    exact un_of_good (.gbReduce a f k g) (fun t ht => ht) fun t x y hg _ =>
+      good_gb (keyedFn_red g) (keyedFn_red g) (ψRed_ne g) (red_law g) f k _ (count_pos cfg .u) _ hg rfl
+  case join a b v ship f1 c1 f2 c2 =>
+    cases ship
+    · -- ship hash
+      refine bin_of_good (.join a b v .hash f1 c1 f2 c2) (fun t t' ht => by simpa [Kind.tagBin] using ht)
+        fun t t' x y x' y' hg hg' _ => ?_
+      have hn := count_pos cfg .u
+      have hx := copart_exchange o.hash (f1.eval c1) (cfg.count .u) (o.merge id) x
+      have hy := copart_exchange o.hash (f2.eval c2) (cfg.count .u) (o.merge id) x'
+      have hlen : (exchange (cfg.count .u) (fun _ e => o.hash (f1.eval c1 e)) (o.merge id) x).length =
+          (exchange (cfg.count .u) (fun _ e => o.hash (f2.eval c2 e)) (o.merge id) x').length := by
+        rw [length_exchange, length_exchange]
+      refine Good.mk ?_ (fun e => by simp [Kind.tagBin] at e) ?_ ?_
+      · apply ne_of_length_pos
+        rw [length_zipWith, length_exchange, length_exchange]; simpa using hn
+      · refine (join_copart o.hash v _ _ _ 0 _ _ hlen hx hy).trans ?_
+        exact joinS_perm v _ _ ((exchange_perm _ _ _ _ hn).trans hg.perm)
+          ((exchange_perm _ _ _ _ hn).trans hg'.perm)
+      · intro _ _
+        have := invAt_zipWith_join (h := o.hash) v (f1.eval c1) (f2.eval c2) _ _ hx hy
+        unfold Coloc
+        rw [length_zipWith, length_exchange, length_exchange, Nat.min_self]
+        exact this
+    · -- ship broadcast-right
+      refine bin_of_good (.join a b v .bcast f1 c1 f2 c2)
+        (fun t t' ht => by
+          simp only [Kind.tagBin, Bool.and_eq_true] at ht; exact ⟨ht.1.1, ht.1.2⟩)
+        fun t t' x y x' y' hg hg' hok => ?_
+      have hv : v ≠ .outer := by
+        simp only [Kind.tagBin, Bool.and_eq_true] at hok
+        intro e; subst e; simp at hok
+      refine Good.mk (ne_map hg.ne) (fun e => by rw [length_map]; exact hg.single e) ?_
+        (fun e => by cases e)
+      rw [flatten_map_join_right v hv]
+      exact joinS_perm v _ _ hg.perm ((permBy_perm _ _).trans hg'.perm)
+  case replay a sd l =>
+    cases sd with
+    | none =>
+      simp only [parSem, tagSem, seqSem]
+      apply un_of_good (f2 := fun y => [V.int (LoopSpec.run false loopFuel [] l y).1]) (.replay a none l)
+        (fun t ht => ht)
+      intro t x y hg _
+      have := loopSpec_rel false _ (count_pos cfg .u) o id loopFuel [[]] [] (by simp) (by simp) l x y
+        hg.ne hg.perm
+      refine Good.mk (by simp) (fun _ => by simp) ?_ (fun e => by cases e)
+      simp [this.1]
+    | some b =>
+      simp only [parSem, tagSem, seqSem]
+      apply bin_of_good (f2 := fun y sd => [V.int (LoopSpec.run false loopFuel sd l y).1])
+        (.replay a (some b) l) (fun t t' ht => by simpa [Kind.tagBin] using ht)
+      intro t t' x y x' y' hg hg' _
+      have := loopSpec_rel false _ (count_pos cfg .u) o id loopFuel x' y' hg'.ne hg'.perm l x y
+        hg.ne hg.perm
+      refine Good.mk (by simp) (fun _ => by simp) ?_ (fun e => by cases e)
+      simp [this.1]
+  case iterate a sd l =>
+    cases sd with
+    | none =>
+      simp only [parSem, tagSem, seqSem]
+      refine .multi (All2.cons ?_ (All2.cons ?_ All2.nil))
+      · intro x ts hr hok
+        have hg := hr hok
+        have := loopSpec_rel true _ (count_pos cfg .u) o id loopFuel [[]] [] (by simp) (by simp) l x ts.2
+          hg.ne hg.perm
+        refine Good.mk (by simp) (fun _ => by simp) ?_ (fun e => by cases e)
+        simp [this.1]
+      · intro x ts hr hok
+        have hg := hr hok
+        have := loopSpec_rel true _ (count_pos cfg .u) o id loopFuel [[]] [] (by simp) (by simp) l x ts.2
+          hg.ne hg.perm
+        exact Good.mk this.2.1 (fun e => by simp at e) this.2.2 (fun e => by cases e)
+    | some b =>
+      simp only [parSem, tagSem, seqSem]
+      refine .bmulti (All2.cons ?_ (All2.cons ?_ All2.nil))
+      · intro x ts x' ts' hr hr' hok
+        have hok2 : ts.1.ok = true ∧ ts'.1.ok = true := by simpa using hok
+        have hg := hr hok2.1
+        have hg' := hr' hok2.2
+        have := loopSpec_rel true _ (count_pos cfg .u) o id loopFuel x' ts'.2 hg'.ne hg'.perm l x ts.2
+          hg.ne hg.perm
+        refine Good.mk (by simp) (fun _ => by simp) ?_ (fun e => by cases e)
+        simp [this.1]
+      · intro x ts x' ts' hr hr' hok
+        have hok2 : ts.1.ok = true ∧ ts'.1.ok = true := by simpa using hok
+        have hg := hr hok2.1
+        have hg' := hr' hok2.2
+        have := loopSpec_rel true _ (count_pos cfg .u) o id loopFuel x' ts'.2 hg'.ne hg'.perm l x ts.2
+          hg.ne hg.perm
+        exact Good.mk this.2.1 (fun e => by simp at e) this.2.2 (fun e => by cases e)
+
+end Noir.Pipe
+
+namespace Noir.Pipe
+open List
+
+/-! ### the runs -/
+
+/-- the parallel run and the tagged sequential run are related, for EVERY job -/
+theorem par_tag_rel (cfg : Cfg) (o : Orc) (job : Job) :
+    StRel (RelT o.hash) SinkT (parRun cfg o job) (tagRun job) := by
+  unfold parRun tagRun
+  exact foldl_stepWith_rel job (fun n _ => semRel_tag cfg o n) stRel_init
+
+def ProjR : Bool → Tag × List V → List V → Prop := fun _ x y => x.2 = y
+def ProjS : Tag × List V → List V → Prop := fun x y => x.2 = y
+
+theorem all2_map_self (fs : List (List V → List V))
+    (w : (List V → List V) → (Tag × List V → Tag × List V)) (hw : ∀ f x, (w f x).2 = f x.2) :
+    All2 (fun f1 f2 => ∀ x y, ProjR false x y → ProjR false (f1 x) (f2 y)) (fs.map w) fs := by
+  induction fs with
+  | nil => exact All2.nil
+  | cons f fs ih =>
+    refine All2.cons (fun x y h => ?_) ih
+    simp only [ProjR] at h ⊢; subst h; exact hw f x
+
+/-- the tagged sequential run carries exactly the sequential values -/
+theorem semRel_proj (n : Node) : SemRel ProjR ProjS (tagSem n) (seqSem n) := by
+  obtain ⟨id, kind⟩ := n
+  cases kind <;> simp only [tagSem, seqSem]
+  case route a ps => exact .multi (all2_map_self _ _ (fun f x => rfl))
+  case iterate a sd l =>
+    cases sd with
+    | none =>
+      simp only [tagSem, seqSem]
+      exact .multi (All2.cons (fun x y h => by simp only [ProjR] at h ⊢; subst h; rfl)
+        (All2.cons (fun x y h => by simp only [ProjR] at h ⊢; subst h; rfl) All2.nil))
+    | some b =>
+      simp only [tagSem, seqSem]
+      exact .bmulti (All2.cons (fun x y x' y' h h' => by simp only [ProjR] at h h' ⊢; subst h; subst h'; rfl)
+        (All2.cons (fun x y x' y' h h' => by simp only [ProjR] at h h' ⊢; subst h; subst h'; rfl) All2.nil))
+  case replay a sd l =>
+    cases sd with
+    | none => simp only [tagSem, seqSem]; exact .un (fun x y h => by simp only [ProjR] at h ⊢; subst h; rfl)
+    | some b =>
+      simp only [tagSem, seqSem]
+      exact .bin (fun x y x' y' h h' => by simp only [ProjR] at h h' ⊢; subst h; subst h'; rfl)
+  all_goals first
+    | exact .src rfl
+    | exact .un (fun x y h => by simp only [ProjR] at h ⊢; subst h; rfl)
+    | exact .bin (fun x y x' y' h h' => by simp only [ProjR] at h h' ⊢; subst h; subst h'; rfl)
+    | exact .sink (fun k x y h => by simp only [ProjR, ProjS] at h ⊢; subst h; rfl)
+
+theorem tag_seq_rel (job : Job) : StRel ProjR ProjS (tagRun job) (seqRun job) := by
+  unfold tagRun seqRun
+  exact foldl_stepWith_rel job (fun n _ => semRel_proj n) stRel_init
+
+
+theorem All2.imp_mem {α β : Type} {R R' : α → β → Prop} {a : List α} {b : List β} (h : All2 R a b)
+    (hi : ∀ x y, y ∈ b → R x y → R' x y) : All2 R' a b := by
+  induction h with
+  | nil => exact All2.nil
+  | cons hr _ ih =>
+    exact All2.cons (hi _ _ (by simp) hr) (ih fun x y hy => hi x y (by simp [hy]))
+
+theorem all2_eq_map {α β : Type} {f : α → β} {a : List α} {b : List β}
+    (h : All2 (fun x y => f x = y) a b) : a.map f = b := by
+  induction h with
+  | nil => rfl
+  | cons hr _ ih => simp [hr, ih]
+
+
+theorem All2.flip {α β : Type} {R : α → β → Prop} {a : List α} {b : List β} (h : All2 R a b) :
+    All2 (fun y x => R x y) b a := by
+  induction h with
+  | nil => exact All2.nil
+  | cons hr _ ih => exact All2.cons hr ih
 
 end Noir.Pipe
